@@ -1,1 +1,1638 @@
 use super::*;
+
+// ===========================================================================
+// C02: slice parsers on hostile bytes
+// ===========================================================================
+const C02_BUF: usize = 56;
+
+fn le64(b: &[u8; C02_BUF], o: usize) -> u64 {
+    u64::from_le_bytes([b[o], b[o + 1], b[o + 2], b[o + 3], b[o + 4], b[o + 5], b[o + 6], b[o + 7]])
+}
+
+/// Consistency predicate from the property statement, evaluated in u128 from
+/// the raw input bytes (independent of Header::decode).
+fn frame_ok(b: &[u8; C02_BUF], n: usize, exact: bool) -> bool {
+    if n < 48 {
+        return false;
+    }
+    let len = le64(b, 0) as u128;
+    let q = le64(b, 24) as u128;
+    let bl = le64(b, 32) as u128;
+    let magic = b[8] == 0x07 && b[9] == 0x15;
+    let total = 48 + q + bl;
+    magic && len == total && (if exact { n as u128 == total } else { n as u128 >= total })
+}
+
+//@ prop: C02
+//@ tier: quick
+//@ clause: MessageView::from_slice(_exact) never panic on any bytes; succeed exactly when magic, declared total == 48+q+b and the buffer holds the frame (exact: no trailing bytes); returned query/body are exactly the corresponding input ranges
+//@ funcs: MessageView::from_slice; MessageView::from_slice_exact; Header::decode
+//@ symbolic: 56-byte buffer (every bit, so the three 64-bit length fields range over all values incl. wrapping sums) and its length 0..=56 (every truncation point, trailing garbage)
+//@ bounds: buffer <= 56 bytes (payload <= 8)
+//@ oracle: u128 consistency predicate on the raw bytes; pointer identity of the borrowed ranges
+#[kani::proof]
+fn c02_view_from_slice_total() {
+    let buf: [u8; C02_BUF] = kani::any();
+    let n: usize = kani::any();
+    kani::assume(n <= C02_BUF);
+    let exact: bool = kani::any();
+    let r = if exact { MessageView::from_slice_exact(&buf[..n]) } else { MessageView::from_slice(&buf[..n]) };
+    match r {
+        Ok(v) => {
+            assert!(frame_ok(&buf, n, exact), "parse succeeded on an inconsistent or truncated frame");
+            let q = le64(&buf, 24) as usize;
+            let bl = le64(&buf, 32) as usize;
+            assert!(v.query.len() == q && v.body.len() == bl);
+            assert!(v.query.as_ptr() == buf[48..].as_ptr(), "query is not the input range");
+            assert!(v.body.as_ptr() == buf[48 + q..].as_ptr(), "body is not the input range");
+            assert!(v.header.id == le64(&buf, 16));
+            kani::cover!(q == 3 && bl == 5);
+            kani::cover!(!exact && n > 48 + q + bl);
+        }
+        Err(_) => {
+            assert!(!frame_ok(&buf, n, exact), "a complete consistent frame was rejected");
+            kani::cover!(n >= 48 && buf[8] == 0x07 && buf[9] == 0x15 && le64(&buf, 24) > (1u64 << 63));
+            kani::cover!(n == 55 && le64(&buf, 0) == 56 && buf[8] == 0x07 && buf[9] == 0x15 && le64(&buf, 24) == 8 && le64(&buf, 32) == 0);
+        }
+    }
+}
+
+//@ prop: C02
+//@ tier: quick
+//@ clause: Message::from_slice(_exact) never panic on any bytes; succeed exactly on complete consistent frames; the owned query/body equal the input bytes
+//@ funcs: Message::from_slice; Message::from_slice_exact; Message::new; Header::decode
+//@ symbolic: 56-byte buffer (every bit) and its length 0..=56
+//@ bounds: buffer <= 56 bytes (payload <= 8); unwind 10 covers the <=8-byte copies/compares
+//@ oracle: u128 consistency predicate on the raw bytes; bytewise comparison
+#[kani::proof]
+#[kani::unwind(10)]
+fn c02_message_from_slice_total() {
+    let buf: [u8; C02_BUF] = kani::any();
+    let n: usize = kani::any();
+    kani::assume(n <= C02_BUF);
+    let exact: bool = kani::any();
+    let r = if exact { Message::from_slice_exact(&buf[..n]) } else { Message::from_slice(&buf[..n]) };
+    match r {
+        Ok(m) => {
+            assert!(frame_ok(&buf, n, exact), "parse succeeded on an inconsistent or truncated frame");
+            let q = le64(&buf, 24) as usize;
+            let bl = le64(&buf, 32) as usize;
+            assert!(m.query.len() == q && m.body.len() == bl);
+            let mut i = 0;
+            while i < q {
+                assert!(m.query[i] == buf[48 + i]);
+                i += 1;
+            }
+            let mut j = 0;
+            while j < bl {
+                assert!(m.body[j] == buf[48 + q + j]);
+                j += 1;
+            }
+            kani::cover!(q == 2 && bl == 6);
+            std::mem::forget(m);
+        }
+        Err(e) => {
+            assert!(!frame_ok(&buf, n, exact), "a complete consistent frame was rejected");
+            std::mem::forget(e);
+        }
+    }
+}
+
+// ===========================================================================
+// C01: every emission route produces header || query || body
+// ===========================================================================
+use crate::verif_common::{any_header, spec_header_bytes, ShortSink};
+
+/// Oracle frame: spec-table header bytes, then query, then body.
+fn oracle_frame<const Q: usize, const B: usize>(h: &Header, q: &[u8; Q], b: &[u8; B]) -> [u8; 64] {
+    let mut f = [0u8; 64];
+    let hb = spec_header_bytes(h);
+    let mut i = 0;
+    while i < 48 {
+        f[i] = hb[i];
+        i += 1;
+    }
+    let mut j = 0;
+    while j < Q {
+        f[48 + j] = q[j];
+        j += 1;
+    }
+    let mut k = 0;
+    while k < B {
+        f[48 + Q + k] = b[k];
+        k += 1;
+    }
+    f
+}
+
+fn same(bytes: &[u8], want: &[u8; 64], n: usize) -> bool {
+    if bytes.len() != n {
+        return false;
+    }
+    let mut i = 0;
+    while i < n {
+        if bytes[i] != want[i] {
+            return false;
+        }
+        i += 1;
+    }
+    true
+}
+
+/// Q, B: payload sizes; BODYCAP: capacity of the body buffer handed to
+/// into_wire_bytes (below / equal / above the in-place threshold 48+Q+B);
+/// WCAP: bytes the sink accepts per write call (short writes when small).
+fn routes<const Q: usize, const B: usize, const BODYCAP: usize, const WCAP: usize>() {
+    // ALL header fields symbolic, including inconsistent length fields: the
+    // owned-message emitters must copy the header verbatim.
+    let h = any_header();
+    let q: [u8; Q] = kani::any();
+    let b: [u8; B] = kani::any();
+    let n = 48 + Q + B;
+    let want = oracle_frame(&h, &q, &b);
+
+    let mut body = Vec::with_capacity(BODYCAP);
+    body.extend_from_slice(&b);
+    kani::assume(body.capacity() == BODYCAP);
+    let m = Message { header: h, query: q.to_vec(), body };
+
+    // buffered
+    let v = m.to_vec();
+    assert!(same(&v, &want, n), "to_vec differs from header||query||body");
+    assert!(m.serialized_len() == n);
+    // streamed into a (possibly short-writing) sink
+    let mut s1 = ShortSink::<WCAP>::new();
+    m.write_to(&mut s1).unwrap();
+    assert!(same(&s1.out[..s1.len], &want, n), "write_to differs");
+    let mut s2 = ShortSink::<WCAP>::new();
+    crate::io::write_message(&mut s2, &m).unwrap();
+    assert!(same(&s2.out[..s2.len], &want, n), "write_message differs");
+    // streaming writer: documented to overwrite the three length fields
+    let mut hp = h;
+    hp.query_length = Q as u64;
+    hp.body_length = B as u64;
+    hp.length = (48 + Q + B) as u64;
+    let want_patched = oracle_frame(&hp, &q, &b);
+    let mut s3 = ShortSink::<WCAP>::new();
+    crate::io::write_message_streaming(&mut s3, h, &q, B as u64, |w| {
+        use std::io::Write;
+        w.write_all(&b)
+    })
+    .unwrap();
+    assert!(same(&s3.out[..s3.len], &want_patched, n), "write_message_streaming differs");
+    // in-place reuse of the body buffer vs fresh buffer
+    let body_ptr = m.body.as_ptr();
+    let w = m.into_wire_bytes();
+    assert!(same(&w, &want, n), "into_wire_bytes differs");
+    // vacuity guard: the path this instance is meant to exercise was taken
+    kani::cover!((w.as_ptr() == body_ptr) == (BODYCAP >= n));
+    kani::cover!(h.reserved != 0 && h.length != (48 + Q + B) as u64);
+    std::mem::forget(v);
+    std::mem::forget(w);
+}
+
+macro_rules! c01_routes {
+    ($name:ident, $q:expr, $b:expr, $cap:expr, $wcap:expr) => {
+        #[kani::proof]
+        #[kani::unwind(66)]
+        fn $name() {
+            routes::<$q, $b, $cap, $wcap>();
+        }
+    };
+}
+
+//@ name: c01_routes_q2_b3_cap52_w64
+//@ prop: C01
+//@ tier: quick
+//@ clause: every emission route (to_vec, write_to, write_message, write_message_streaming, into_wire_bytes) yields exactly 48 spec-layout header bytes, then the query, then the body; header copied verbatim (streaming writer patches the three lengths as documented)
+//@ funcs: Message::to_vec; Message::serialized_len; Message::write_to; Message::into_wire_bytes; io::write_message; io::write_message_streaming; Header::encode
+//@ symbolic: all 11 header fields full width (including inconsistent length fields), all query and body bytes
+//@ bounds: |query|=2, |body|=3 (per-instance constants); body buffer capacity 52 = one below the in-place threshold 53; sink accepts 64 byte(s) per write call; unwind 66
+//@ oracle: independent REPE v1 (offset,width) table || query || body, compared bytewise
+c01_routes!(c01_routes_q2_b3_cap52_w64, 2, 3, 52, 64);
+
+//@ name: c01_routes_q2_b3_cap53_w64
+//@ prop: C01
+//@ tier: quick
+//@ clause: every emission route (to_vec, write_to, write_message, write_message_streaming, into_wire_bytes) yields exactly 48 spec-layout header bytes, then the query, then the body; header copied verbatim (streaming writer patches the three lengths as documented)
+//@ funcs: Message::to_vec; Message::serialized_len; Message::write_to; Message::into_wire_bytes; io::write_message; io::write_message_streaming; Header::encode
+//@ symbolic: all 11 header fields full width (including inconsistent length fields), all query and body bytes
+//@ bounds: |query|=2, |body|=3 (per-instance constants); body buffer capacity 53 = equal to the in-place threshold 53; sink accepts 64 byte(s) per write call; unwind 66
+//@ oracle: independent REPE v1 (offset,width) table || query || body, compared bytewise
+c01_routes!(c01_routes_q2_b3_cap53_w64, 2, 3, 53, 64);
+
+//@ name: c01_routes_q2_b3_cap54_w2
+//@ prop: C01
+//@ tier: quick
+//@ clause: every emission route (to_vec, write_to, write_message, write_message_streaming, into_wire_bytes) yields exactly 48 spec-layout header bytes, then the query, then the body; header copied verbatim (streaming writer patches the three lengths as documented)
+//@ funcs: Message::to_vec; Message::serialized_len; Message::write_to; Message::into_wire_bytes; io::write_message; io::write_message_streaming; Header::encode
+//@ symbolic: all 11 header fields full width (including inconsistent length fields), all query and body bytes
+//@ bounds: |query|=2, |body|=3 (per-instance constants); body buffer capacity 54 = one above the in-place threshold 53; sink accepts 2 byte(s) per write call; unwind 66
+//@ oracle: independent REPE v1 (offset,width) table || query || body, compared bytewise
+c01_routes!(c01_routes_q2_b3_cap54_w2, 2, 3, 54, 2);
+
+//@ name: c01_routes_q0_b0_cap48_w64
+//@ prop: C01
+//@ tier: thorough
+//@ timeout: 1500
+//@ clause: every emission route (to_vec, write_to, write_message, write_message_streaming, into_wire_bytes) yields exactly 48 spec-layout header bytes, then the query, then the body; header copied verbatim (streaming writer patches the three lengths as documented)
+//@ funcs: Message::to_vec; Message::serialized_len; Message::write_to; Message::into_wire_bytes; io::write_message; io::write_message_streaming; Header::encode
+//@ symbolic: all 11 header fields full width (including inconsistent length fields), all query and body bytes
+//@ bounds: |query|=0, |body|=0 (per-instance constants); body buffer capacity 48 = equal to the in-place threshold 48; sink accepts 64 byte(s) per write call; unwind 66
+//@ oracle: independent REPE v1 (offset,width) table || query || body, compared bytewise
+c01_routes!(c01_routes_q0_b0_cap48_w64, 0, 0, 48, 64);
+
+//@ name: c01_routes_q0_b0_cap0_w64
+//@ prop: C01
+//@ tier: thorough
+//@ timeout: 1500
+//@ clause: every emission route (to_vec, write_to, write_message, write_message_streaming, into_wire_bytes) yields exactly 48 spec-layout header bytes, then the query, then the body; header copied verbatim (streaming writer patches the three lengths as documented)
+//@ funcs: Message::to_vec; Message::serialized_len; Message::write_to; Message::into_wire_bytes; io::write_message; io::write_message_streaming; Header::encode
+//@ symbolic: all 11 header fields full width (including inconsistent length fields), all query and body bytes
+//@ bounds: |query|=0, |body|=0 (per-instance constants); body buffer capacity 0 = minimal, below the in-place threshold 48; sink accepts 64 byte(s) per write call; unwind 66
+//@ oracle: independent REPE v1 (offset,width) table || query || body, compared bytewise
+c01_routes!(c01_routes_q0_b0_cap0_w64, 0, 0, 0, 64);
+
+//@ name: c01_routes_q0_b0_cap47_w64
+//@ prop: C01
+//@ tier: thorough
+//@ timeout: 1500
+//@ clause: every emission route (to_vec, write_to, write_message, write_message_streaming, into_wire_bytes) yields exactly 48 spec-layout header bytes, then the query, then the body; header copied verbatim (streaming writer patches the three lengths as documented)
+//@ funcs: Message::to_vec; Message::serialized_len; Message::write_to; Message::into_wire_bytes; io::write_message; io::write_message_streaming; Header::encode
+//@ symbolic: all 11 header fields full width (including inconsistent length fields), all query and body bytes
+//@ bounds: |query|=0, |body|=0 (per-instance constants); body buffer capacity 47 = one below the in-place threshold 48; sink accepts 64 byte(s) per write call; unwind 66
+//@ oracle: independent REPE v1 (offset,width) table || query || body, compared bytewise
+c01_routes!(c01_routes_q0_b0_cap47_w64, 0, 0, 47, 64);
+
+//@ name: c01_routes_q0_b0_cap49_w64
+//@ prop: C01
+//@ tier: thorough
+//@ timeout: 1500
+//@ clause: every emission route (to_vec, write_to, write_message, write_message_streaming, into_wire_bytes) yields exactly 48 spec-layout header bytes, then the query, then the body; header copied verbatim (streaming writer patches the three lengths as documented)
+//@ funcs: Message::to_vec; Message::serialized_len; Message::write_to; Message::into_wire_bytes; io::write_message; io::write_message_streaming; Header::encode
+//@ symbolic: all 11 header fields full width (including inconsistent length fields), all query and body bytes
+//@ bounds: |query|=0, |body|=0 (per-instance constants); body buffer capacity 49 = one above the in-place threshold 48; sink accepts 64 byte(s) per write call; unwind 66
+//@ oracle: independent REPE v1 (offset,width) table || query || body, compared bytewise
+c01_routes!(c01_routes_q0_b0_cap49_w64, 0, 0, 49, 64);
+
+//@ name: c01_routes_q0_b1_cap1_w64
+//@ prop: C01
+//@ tier: thorough
+//@ timeout: 1500
+//@ clause: every emission route (to_vec, write_to, write_message, write_message_streaming, into_wire_bytes) yields exactly 48 spec-layout header bytes, then the query, then the body; header copied verbatim (streaming writer patches the three lengths as documented)
+//@ funcs: Message::to_vec; Message::serialized_len; Message::write_to; Message::into_wire_bytes; io::write_message; io::write_message_streaming; Header::encode
+//@ symbolic: all 11 header fields full width (including inconsistent length fields), all query and body bytes
+//@ bounds: |query|=0, |body|=1 (per-instance constants); body buffer capacity 1 = minimal, below the in-place threshold 49; sink accepts 64 byte(s) per write call; unwind 66
+//@ oracle: independent REPE v1 (offset,width) table || query || body, compared bytewise
+c01_routes!(c01_routes_q0_b1_cap1_w64, 0, 1, 1, 64);
+
+//@ name: c01_routes_q0_b1_cap48_w64
+//@ prop: C01
+//@ tier: thorough
+//@ timeout: 1500
+//@ clause: every emission route (to_vec, write_to, write_message, write_message_streaming, into_wire_bytes) yields exactly 48 spec-layout header bytes, then the query, then the body; header copied verbatim (streaming writer patches the three lengths as documented)
+//@ funcs: Message::to_vec; Message::serialized_len; Message::write_to; Message::into_wire_bytes; io::write_message; io::write_message_streaming; Header::encode
+//@ symbolic: all 11 header fields full width (including inconsistent length fields), all query and body bytes
+//@ bounds: |query|=0, |body|=1 (per-instance constants); body buffer capacity 48 = one below the in-place threshold 49; sink accepts 64 byte(s) per write call; unwind 66
+//@ oracle: independent REPE v1 (offset,width) table || query || body, compared bytewise
+c01_routes!(c01_routes_q0_b1_cap48_w64, 0, 1, 48, 64);
+
+//@ name: c01_routes_q0_b1_cap49_w64
+//@ prop: C01
+//@ tier: thorough
+//@ timeout: 1500
+//@ clause: every emission route (to_vec, write_to, write_message, write_message_streaming, into_wire_bytes) yields exactly 48 spec-layout header bytes, then the query, then the body; header copied verbatim (streaming writer patches the three lengths as documented)
+//@ funcs: Message::to_vec; Message::serialized_len; Message::write_to; Message::into_wire_bytes; io::write_message; io::write_message_streaming; Header::encode
+//@ symbolic: all 11 header fields full width (including inconsistent length fields), all query and body bytes
+//@ bounds: |query|=0, |body|=1 (per-instance constants); body buffer capacity 49 = equal to the in-place threshold 49; sink accepts 64 byte(s) per write call; unwind 66
+//@ oracle: independent REPE v1 (offset,width) table || query || body, compared bytewise
+c01_routes!(c01_routes_q0_b1_cap49_w64, 0, 1, 49, 64);
+
+//@ name: c01_routes_q0_b1_cap50_w64
+//@ prop: C01
+//@ tier: thorough
+//@ timeout: 1500
+//@ clause: every emission route (to_vec, write_to, write_message, write_message_streaming, into_wire_bytes) yields exactly 48 spec-layout header bytes, then the query, then the body; header copied verbatim (streaming writer patches the three lengths as documented)
+//@ funcs: Message::to_vec; Message::serialized_len; Message::write_to; Message::into_wire_bytes; io::write_message; io::write_message_streaming; Header::encode
+//@ symbolic: all 11 header fields full width (including inconsistent length fields), all query and body bytes
+//@ bounds: |query|=0, |body|=1 (per-instance constants); body buffer capacity 50 = one above the in-place threshold 49; sink accepts 64 byte(s) per write call; unwind 66
+//@ oracle: independent REPE v1 (offset,width) table || query || body, compared bytewise
+c01_routes!(c01_routes_q0_b1_cap50_w64, 0, 1, 50, 64);
+
+//@ name: c01_routes_q0_b3_cap3_w64
+//@ prop: C01
+//@ tier: thorough
+//@ timeout: 1500
+//@ clause: every emission route (to_vec, write_to, write_message, write_message_streaming, into_wire_bytes) yields exactly 48 spec-layout header bytes, then the query, then the body; header copied verbatim (streaming writer patches the three lengths as documented)
+//@ funcs: Message::to_vec; Message::serialized_len; Message::write_to; Message::into_wire_bytes; io::write_message; io::write_message_streaming; Header::encode
+//@ symbolic: all 11 header fields full width (including inconsistent length fields), all query and body bytes
+//@ bounds: |query|=0, |body|=3 (per-instance constants); body buffer capacity 3 = minimal, below the in-place threshold 51; sink accepts 64 byte(s) per write call; unwind 66
+//@ oracle: independent REPE v1 (offset,width) table || query || body, compared bytewise
+c01_routes!(c01_routes_q0_b3_cap3_w64, 0, 3, 3, 64);
+
+//@ name: c01_routes_q0_b3_cap50_w64
+//@ prop: C01
+//@ tier: thorough
+//@ timeout: 1500
+//@ clause: every emission route (to_vec, write_to, write_message, write_message_streaming, into_wire_bytes) yields exactly 48 spec-layout header bytes, then the query, then the body; header copied verbatim (streaming writer patches the three lengths as documented)
+//@ funcs: Message::to_vec; Message::serialized_len; Message::write_to; Message::into_wire_bytes; io::write_message; io::write_message_streaming; Header::encode
+//@ symbolic: all 11 header fields full width (including inconsistent length fields), all query and body bytes
+//@ bounds: |query|=0, |body|=3 (per-instance constants); body buffer capacity 50 = one below the in-place threshold 51; sink accepts 64 byte(s) per write call; unwind 66
+//@ oracle: independent REPE v1 (offset,width) table || query || body, compared bytewise
+c01_routes!(c01_routes_q0_b3_cap50_w64, 0, 3, 50, 64);
+
+//@ name: c01_routes_q0_b3_cap51_w64
+//@ prop: C01
+//@ tier: quick
+//@ clause: every emission route (to_vec, write_to, write_message, write_message_streaming, into_wire_bytes) yields exactly 48 spec-layout header bytes, then the query, then the body; header copied verbatim (streaming writer patches the three lengths as documented)
+//@ funcs: Message::to_vec; Message::serialized_len; Message::write_to; Message::into_wire_bytes; io::write_message; io::write_message_streaming; Header::encode
+//@ symbolic: all 11 header fields full width (including inconsistent length fields), all query and body bytes
+//@ bounds: |query|=0, |body|=3 (per-instance constants); body buffer capacity 51 = equal to the in-place threshold 51; sink accepts 64 byte(s) per write call; unwind 66
+//@ oracle: independent REPE v1 (offset,width) table || query || body, compared bytewise
+c01_routes!(c01_routes_q0_b3_cap51_w64, 0, 3, 51, 64);
+
+//@ name: c01_routes_q0_b3_cap52_w64
+//@ prop: C01
+//@ tier: thorough
+//@ timeout: 1500
+//@ clause: every emission route (to_vec, write_to, write_message, write_message_streaming, into_wire_bytes) yields exactly 48 spec-layout header bytes, then the query, then the body; header copied verbatim (streaming writer patches the three lengths as documented)
+//@ funcs: Message::to_vec; Message::serialized_len; Message::write_to; Message::into_wire_bytes; io::write_message; io::write_message_streaming; Header::encode
+//@ symbolic: all 11 header fields full width (including inconsistent length fields), all query and body bytes
+//@ bounds: |query|=0, |body|=3 (per-instance constants); body buffer capacity 52 = one above the in-place threshold 51; sink accepts 64 byte(s) per write call; unwind 66
+//@ oracle: independent REPE v1 (offset,width) table || query || body, compared bytewise
+c01_routes!(c01_routes_q0_b3_cap52_w64, 0, 3, 52, 64);
+
+//@ name: c01_routes_q1_b0_cap0_w64
+//@ prop: C01
+//@ tier: thorough
+//@ timeout: 1500
+//@ clause: every emission route (to_vec, write_to, write_message, write_message_streaming, into_wire_bytes) yields exactly 48 spec-layout header bytes, then the query, then the body; header copied verbatim (streaming writer patches the three lengths as documented)
+//@ funcs: Message::to_vec; Message::serialized_len; Message::write_to; Message::into_wire_bytes; io::write_message; io::write_message_streaming; Header::encode
+//@ symbolic: all 11 header fields full width (including inconsistent length fields), all query and body bytes
+//@ bounds: |query|=1, |body|=0 (per-instance constants); body buffer capacity 0 = minimal, below the in-place threshold 49; sink accepts 64 byte(s) per write call; unwind 66
+//@ oracle: independent REPE v1 (offset,width) table || query || body, compared bytewise
+c01_routes!(c01_routes_q1_b0_cap0_w64, 1, 0, 0, 64);
+
+//@ name: c01_routes_q1_b0_cap48_w64
+//@ prop: C01
+//@ tier: thorough
+//@ timeout: 1500
+//@ clause: every emission route (to_vec, write_to, write_message, write_message_streaming, into_wire_bytes) yields exactly 48 spec-layout header bytes, then the query, then the body; header copied verbatim (streaming writer patches the three lengths as documented)
+//@ funcs: Message::to_vec; Message::serialized_len; Message::write_to; Message::into_wire_bytes; io::write_message; io::write_message_streaming; Header::encode
+//@ symbolic: all 11 header fields full width (including inconsistent length fields), all query and body bytes
+//@ bounds: |query|=1, |body|=0 (per-instance constants); body buffer capacity 48 = one below the in-place threshold 49; sink accepts 64 byte(s) per write call; unwind 66
+//@ oracle: independent REPE v1 (offset,width) table || query || body, compared bytewise
+c01_routes!(c01_routes_q1_b0_cap48_w64, 1, 0, 48, 64);
+
+//@ name: c01_routes_q1_b0_cap49_w64
+//@ prop: C01
+//@ tier: thorough
+//@ timeout: 1500
+//@ clause: every emission route (to_vec, write_to, write_message, write_message_streaming, into_wire_bytes) yields exactly 48 spec-layout header bytes, then the query, then the body; header copied verbatim (streaming writer patches the three lengths as documented)
+//@ funcs: Message::to_vec; Message::serialized_len; Message::write_to; Message::into_wire_bytes; io::write_message; io::write_message_streaming; Header::encode
+//@ symbolic: all 11 header fields full width (including inconsistent length fields), all query and body bytes
+//@ bounds: |query|=1, |body|=0 (per-instance constants); body buffer capacity 49 = equal to the in-place threshold 49; sink accepts 64 byte(s) per write call; unwind 66
+//@ oracle: independent REPE v1 (offset,width) table || query || body, compared bytewise
+c01_routes!(c01_routes_q1_b0_cap49_w64, 1, 0, 49, 64);
+
+//@ name: c01_routes_q1_b0_cap50_w64
+//@ prop: C01
+//@ tier: thorough
+//@ timeout: 1500
+//@ clause: every emission route (to_vec, write_to, write_message, write_message_streaming, into_wire_bytes) yields exactly 48 spec-layout header bytes, then the query, then the body; header copied verbatim (streaming writer patches the three lengths as documented)
+//@ funcs: Message::to_vec; Message::serialized_len; Message::write_to; Message::into_wire_bytes; io::write_message; io::write_message_streaming; Header::encode
+//@ symbolic: all 11 header fields full width (including inconsistent length fields), all query and body bytes
+//@ bounds: |query|=1, |body|=0 (per-instance constants); body buffer capacity 50 = one above the in-place threshold 49; sink accepts 64 byte(s) per write call; unwind 66
+//@ oracle: independent REPE v1 (offset,width) table || query || body, compared bytewise
+c01_routes!(c01_routes_q1_b0_cap50_w64, 1, 0, 50, 64);
+
+//@ name: c01_routes_q1_b1_cap1_w64
+//@ prop: C01
+//@ tier: thorough
+//@ timeout: 1500
+//@ clause: every emission route (to_vec, write_to, write_message, write_message_streaming, into_wire_bytes) yields exactly 48 spec-layout header bytes, then the query, then the body; header copied verbatim (streaming writer patches the three lengths as documented)
+//@ funcs: Message::to_vec; Message::serialized_len; Message::write_to; Message::into_wire_bytes; io::write_message; io::write_message_streaming; Header::encode
+//@ symbolic: all 11 header fields full width (including inconsistent length fields), all query and body bytes
+//@ bounds: |query|=1, |body|=1 (per-instance constants); body buffer capacity 1 = minimal, below the in-place threshold 50; sink accepts 64 byte(s) per write call; unwind 66
+//@ oracle: independent REPE v1 (offset,width) table || query || body, compared bytewise
+c01_routes!(c01_routes_q1_b1_cap1_w64, 1, 1, 1, 64);
+
+//@ name: c01_routes_q1_b1_cap49_w64
+//@ prop: C01
+//@ tier: thorough
+//@ timeout: 1500
+//@ clause: every emission route (to_vec, write_to, write_message, write_message_streaming, into_wire_bytes) yields exactly 48 spec-layout header bytes, then the query, then the body; header copied verbatim (streaming writer patches the three lengths as documented)
+//@ funcs: Message::to_vec; Message::serialized_len; Message::write_to; Message::into_wire_bytes; io::write_message; io::write_message_streaming; Header::encode
+//@ symbolic: all 11 header fields full width (including inconsistent length fields), all query and body bytes
+//@ bounds: |query|=1, |body|=1 (per-instance constants); body buffer capacity 49 = one below the in-place threshold 50; sink accepts 64 byte(s) per write call; unwind 66
+//@ oracle: independent REPE v1 (offset,width) table || query || body, compared bytewise
+c01_routes!(c01_routes_q1_b1_cap49_w64, 1, 1, 49, 64);
+
+//@ name: c01_routes_q1_b1_cap50_w64
+//@ prop: C01
+//@ tier: thorough
+//@ timeout: 1500
+//@ clause: every emission route (to_vec, write_to, write_message, write_message_streaming, into_wire_bytes) yields exactly 48 spec-layout header bytes, then the query, then the body; header copied verbatim (streaming writer patches the three lengths as documented)
+//@ funcs: Message::to_vec; Message::serialized_len; Message::write_to; Message::into_wire_bytes; io::write_message; io::write_message_streaming; Header::encode
+//@ symbolic: all 11 header fields full width (including inconsistent length fields), all query and body bytes
+//@ bounds: |query|=1, |body|=1 (per-instance constants); body buffer capacity 50 = equal to the in-place threshold 50; sink accepts 64 byte(s) per write call; unwind 66
+//@ oracle: independent REPE v1 (offset,width) table || query || body, compared bytewise
+c01_routes!(c01_routes_q1_b1_cap50_w64, 1, 1, 50, 64);
+
+//@ name: c01_routes_q1_b1_cap51_w64
+//@ prop: C01
+//@ tier: thorough
+//@ timeout: 1500
+//@ clause: every emission route (to_vec, write_to, write_message, write_message_streaming, into_wire_bytes) yields exactly 48 spec-layout header bytes, then the query, then the body; header copied verbatim (streaming writer patches the three lengths as documented)
+//@ funcs: Message::to_vec; Message::serialized_len; Message::write_to; Message::into_wire_bytes; io::write_message; io::write_message_streaming; Header::encode
+//@ symbolic: all 11 header fields full width (including inconsistent length fields), all query and body bytes
+//@ bounds: |query|=1, |body|=1 (per-instance constants); body buffer capacity 51 = one above the in-place threshold 50; sink accepts 64 byte(s) per write call; unwind 66
+//@ oracle: independent REPE v1 (offset,width) table || query || body, compared bytewise
+c01_routes!(c01_routes_q1_b1_cap51_w64, 1, 1, 51, 64);
+
+//@ name: c01_routes_q1_b3_cap3_w64
+//@ prop: C01
+//@ tier: thorough
+//@ timeout: 1500
+//@ clause: every emission route (to_vec, write_to, write_message, write_message_streaming, into_wire_bytes) yields exactly 48 spec-layout header bytes, then the query, then the body; header copied verbatim (streaming writer patches the three lengths as documented)
+//@ funcs: Message::to_vec; Message::serialized_len; Message::write_to; Message::into_wire_bytes; io::write_message; io::write_message_streaming; Header::encode
+//@ symbolic: all 11 header fields full width (including inconsistent length fields), all query and body bytes
+//@ bounds: |query|=1, |body|=3 (per-instance constants); body buffer capacity 3 = minimal, below the in-place threshold 52; sink accepts 64 byte(s) per write call; unwind 66
+//@ oracle: independent REPE v1 (offset,width) table || query || body, compared bytewise
+c01_routes!(c01_routes_q1_b3_cap3_w64, 1, 3, 3, 64);
+
+//@ name: c01_routes_q1_b3_cap51_w64
+//@ prop: C01
+//@ tier: thorough
+//@ timeout: 1500
+//@ clause: every emission route (to_vec, write_to, write_message, write_message_streaming, into_wire_bytes) yields exactly 48 spec-layout header bytes, then the query, then the body; header copied verbatim (streaming writer patches the three lengths as documented)
+//@ funcs: Message::to_vec; Message::serialized_len; Message::write_to; Message::into_wire_bytes; io::write_message; io::write_message_streaming; Header::encode
+//@ symbolic: all 11 header fields full width (including inconsistent length fields), all query and body bytes
+//@ bounds: |query|=1, |body|=3 (per-instance constants); body buffer capacity 51 = one below the in-place threshold 52; sink accepts 64 byte(s) per write call; unwind 66
+//@ oracle: independent REPE v1 (offset,width) table || query || body, compared bytewise
+c01_routes!(c01_routes_q1_b3_cap51_w64, 1, 3, 51, 64);
+
+//@ name: c01_routes_q1_b3_cap52_w64
+//@ prop: C01
+//@ tier: thorough
+//@ timeout: 1500
+//@ clause: every emission route (to_vec, write_to, write_message, write_message_streaming, into_wire_bytes) yields exactly 48 spec-layout header bytes, then the query, then the body; header copied verbatim (streaming writer patches the three lengths as documented)
+//@ funcs: Message::to_vec; Message::serialized_len; Message::write_to; Message::into_wire_bytes; io::write_message; io::write_message_streaming; Header::encode
+//@ symbolic: all 11 header fields full width (including inconsistent length fields), all query and body bytes
+//@ bounds: |query|=1, |body|=3 (per-instance constants); body buffer capacity 52 = equal to the in-place threshold 52; sink accepts 64 byte(s) per write call; unwind 66
+//@ oracle: independent REPE v1 (offset,width) table || query || body, compared bytewise
+c01_routes!(c01_routes_q1_b3_cap52_w64, 1, 3, 52, 64);
+
+//@ name: c01_routes_q1_b3_cap53_w64
+//@ prop: C01
+//@ tier: thorough
+//@ timeout: 1500
+//@ clause: every emission route (to_vec, write_to, write_message, write_message_streaming, into_wire_bytes) yields exactly 48 spec-layout header bytes, then the query, then the body; header copied verbatim (streaming writer patches the three lengths as documented)
+//@ funcs: Message::to_vec; Message::serialized_len; Message::write_to; Message::into_wire_bytes; io::write_message; io::write_message_streaming; Header::encode
+//@ symbolic: all 11 header fields full width (including inconsistent length fields), all query and body bytes
+//@ bounds: |query|=1, |body|=3 (per-instance constants); body buffer capacity 53 = one above the in-place threshold 52; sink accepts 64 byte(s) per write call; unwind 66
+//@ oracle: independent REPE v1 (offset,width) table || query || body, compared bytewise
+c01_routes!(c01_routes_q1_b3_cap53_w64, 1, 3, 53, 64);
+
+//@ name: c01_routes_q2_b0_cap0_w64
+//@ prop: C01
+//@ tier: thorough
+//@ timeout: 1500
+//@ clause: every emission route (to_vec, write_to, write_message, write_message_streaming, into_wire_bytes) yields exactly 48 spec-layout header bytes, then the query, then the body; header copied verbatim (streaming writer patches the three lengths as documented)
+//@ funcs: Message::to_vec; Message::serialized_len; Message::write_to; Message::into_wire_bytes; io::write_message; io::write_message_streaming; Header::encode
+//@ symbolic: all 11 header fields full width (including inconsistent length fields), all query and body bytes
+//@ bounds: |query|=2, |body|=0 (per-instance constants); body buffer capacity 0 = minimal, below the in-place threshold 50; sink accepts 64 byte(s) per write call; unwind 66
+//@ oracle: independent REPE v1 (offset,width) table || query || body, compared bytewise
+c01_routes!(c01_routes_q2_b0_cap0_w64, 2, 0, 0, 64);
+
+//@ name: c01_routes_q2_b0_cap49_w64
+//@ prop: C01
+//@ tier: thorough
+//@ timeout: 1500
+//@ clause: every emission route (to_vec, write_to, write_message, write_message_streaming, into_wire_bytes) yields exactly 48 spec-layout header bytes, then the query, then the body; header copied verbatim (streaming writer patches the three lengths as documented)
+//@ funcs: Message::to_vec; Message::serialized_len; Message::write_to; Message::into_wire_bytes; io::write_message; io::write_message_streaming; Header::encode
+//@ symbolic: all 11 header fields full width (including inconsistent length fields), all query and body bytes
+//@ bounds: |query|=2, |body|=0 (per-instance constants); body buffer capacity 49 = one below the in-place threshold 50; sink accepts 64 byte(s) per write call; unwind 66
+//@ oracle: independent REPE v1 (offset,width) table || query || body, compared bytewise
+c01_routes!(c01_routes_q2_b0_cap49_w64, 2, 0, 49, 64);
+
+//@ name: c01_routes_q2_b0_cap50_w64
+//@ prop: C01
+//@ tier: thorough
+//@ timeout: 1500
+//@ clause: every emission route (to_vec, write_to, write_message, write_message_streaming, into_wire_bytes) yields exactly 48 spec-layout header bytes, then the query, then the body; header copied verbatim (streaming writer patches the three lengths as documented)
+//@ funcs: Message::to_vec; Message::serialized_len; Message::write_to; Message::into_wire_bytes; io::write_message; io::write_message_streaming; Header::encode
+//@ symbolic: all 11 header fields full width (including inconsistent length fields), all query and body bytes
+//@ bounds: |query|=2, |body|=0 (per-instance constants); body buffer capacity 50 = equal to the in-place threshold 50; sink accepts 64 byte(s) per write call; unwind 66
+//@ oracle: independent REPE v1 (offset,width) table || query || body, compared bytewise
+c01_routes!(c01_routes_q2_b0_cap50_w64, 2, 0, 50, 64);
+
+//@ name: c01_routes_q2_b0_cap51_w64
+//@ prop: C01
+//@ tier: thorough
+//@ timeout: 1500
+//@ clause: every emission route (to_vec, write_to, write_message, write_message_streaming, into_wire_bytes) yields exactly 48 spec-layout header bytes, then the query, then the body; header copied verbatim (streaming writer patches the three lengths as documented)
+//@ funcs: Message::to_vec; Message::serialized_len; Message::write_to; Message::into_wire_bytes; io::write_message; io::write_message_streaming; Header::encode
+//@ symbolic: all 11 header fields full width (including inconsistent length fields), all query and body bytes
+//@ bounds: |query|=2, |body|=0 (per-instance constants); body buffer capacity 51 = one above the in-place threshold 50; sink accepts 64 byte(s) per write call; unwind 66
+//@ oracle: independent REPE v1 (offset,width) table || query || body, compared bytewise
+c01_routes!(c01_routes_q2_b0_cap51_w64, 2, 0, 51, 64);
+
+//@ name: c01_routes_q2_b1_cap1_w64
+//@ prop: C01
+//@ tier: thorough
+//@ timeout: 1500
+//@ clause: every emission route (to_vec, write_to, write_message, write_message_streaming, into_wire_bytes) yields exactly 48 spec-layout header bytes, then the query, then the body; header copied verbatim (streaming writer patches the three lengths as documented)
+//@ funcs: Message::to_vec; Message::serialized_len; Message::write_to; Message::into_wire_bytes; io::write_message; io::write_message_streaming; Header::encode
+//@ symbolic: all 11 header fields full width (including inconsistent length fields), all query and body bytes
+//@ bounds: |query|=2, |body|=1 (per-instance constants); body buffer capacity 1 = minimal, below the in-place threshold 51; sink accepts 64 byte(s) per write call; unwind 66
+//@ oracle: independent REPE v1 (offset,width) table || query || body, compared bytewise
+c01_routes!(c01_routes_q2_b1_cap1_w64, 2, 1, 1, 64);
+
+//@ name: c01_routes_q2_b1_cap50_w64
+//@ prop: C01
+//@ tier: thorough
+//@ timeout: 1500
+//@ clause: every emission route (to_vec, write_to, write_message, write_message_streaming, into_wire_bytes) yields exactly 48 spec-layout header bytes, then the query, then the body; header copied verbatim (streaming writer patches the three lengths as documented)
+//@ funcs: Message::to_vec; Message::serialized_len; Message::write_to; Message::into_wire_bytes; io::write_message; io::write_message_streaming; Header::encode
+//@ symbolic: all 11 header fields full width (including inconsistent length fields), all query and body bytes
+//@ bounds: |query|=2, |body|=1 (per-instance constants); body buffer capacity 50 = one below the in-place threshold 51; sink accepts 64 byte(s) per write call; unwind 66
+//@ oracle: independent REPE v1 (offset,width) table || query || body, compared bytewise
+c01_routes!(c01_routes_q2_b1_cap50_w64, 2, 1, 50, 64);
+
+//@ name: c01_routes_q2_b1_cap51_w64
+//@ prop: C01
+//@ tier: thorough
+//@ timeout: 1500
+//@ clause: every emission route (to_vec, write_to, write_message, write_message_streaming, into_wire_bytes) yields exactly 48 spec-layout header bytes, then the query, then the body; header copied verbatim (streaming writer patches the three lengths as documented)
+//@ funcs: Message::to_vec; Message::serialized_len; Message::write_to; Message::into_wire_bytes; io::write_message; io::write_message_streaming; Header::encode
+//@ symbolic: all 11 header fields full width (including inconsistent length fields), all query and body bytes
+//@ bounds: |query|=2, |body|=1 (per-instance constants); body buffer capacity 51 = equal to the in-place threshold 51; sink accepts 64 byte(s) per write call; unwind 66
+//@ oracle: independent REPE v1 (offset,width) table || query || body, compared bytewise
+c01_routes!(c01_routes_q2_b1_cap51_w64, 2, 1, 51, 64);
+
+//@ name: c01_routes_q2_b1_cap52_w64
+//@ prop: C01
+//@ tier: thorough
+//@ timeout: 1500
+//@ clause: every emission route (to_vec, write_to, write_message, write_message_streaming, into_wire_bytes) yields exactly 48 spec-layout header bytes, then the query, then the body; header copied verbatim (streaming writer patches the three lengths as documented)
+//@ funcs: Message::to_vec; Message::serialized_len; Message::write_to; Message::into_wire_bytes; io::write_message; io::write_message_streaming; Header::encode
+//@ symbolic: all 11 header fields full width (including inconsistent length fields), all query and body bytes
+//@ bounds: |query|=2, |body|=1 (per-instance constants); body buffer capacity 52 = one above the in-place threshold 51; sink accepts 64 byte(s) per write call; unwind 66
+//@ oracle: independent REPE v1 (offset,width) table || query || body, compared bytewise
+c01_routes!(c01_routes_q2_b1_cap52_w64, 2, 1, 52, 64);
+
+//@ name: c01_routes_q2_b3_cap3_w64
+//@ prop: C01
+//@ tier: thorough
+//@ timeout: 1500
+//@ clause: every emission route (to_vec, write_to, write_message, write_message_streaming, into_wire_bytes) yields exactly 48 spec-layout header bytes, then the query, then the body; header copied verbatim (streaming writer patches the three lengths as documented)
+//@ funcs: Message::to_vec; Message::serialized_len; Message::write_to; Message::into_wire_bytes; io::write_message; io::write_message_streaming; Header::encode
+//@ symbolic: all 11 header fields full width (including inconsistent length fields), all query and body bytes
+//@ bounds: |query|=2, |body|=3 (per-instance constants); body buffer capacity 3 = minimal, below the in-place threshold 53; sink accepts 64 byte(s) per write call; unwind 66
+//@ oracle: independent REPE v1 (offset,width) table || query || body, compared bytewise
+c01_routes!(c01_routes_q2_b3_cap3_w64, 2, 3, 3, 64);
+
+//@ name: c01_routes_q2_b3_cap3_w2
+//@ prop: C01
+//@ tier: thorough
+//@ timeout: 1500
+//@ clause: every emission route (to_vec, write_to, write_message, write_message_streaming, into_wire_bytes) yields exactly 48 spec-layout header bytes, then the query, then the body; header copied verbatim (streaming writer patches the three lengths as documented)
+//@ funcs: Message::to_vec; Message::serialized_len; Message::write_to; Message::into_wire_bytes; io::write_message; io::write_message_streaming; Header::encode
+//@ symbolic: all 11 header fields full width (including inconsistent length fields), all query and body bytes
+//@ bounds: |query|=2, |body|=3 (per-instance constants); body buffer capacity 3 = minimal, below the in-place threshold 53; sink accepts 2 byte(s) per write call; unwind 66
+//@ oracle: independent REPE v1 (offset,width) table || query || body, compared bytewise
+c01_routes!(c01_routes_q2_b3_cap3_w2, 2, 3, 3, 2);
+
+//@ name: c01_routes_q2_b3_cap52_w2
+//@ prop: C01
+//@ tier: thorough
+//@ timeout: 1500
+//@ clause: every emission route (to_vec, write_to, write_message, write_message_streaming, into_wire_bytes) yields exactly 48 spec-layout header bytes, then the query, then the body; header copied verbatim (streaming writer patches the three lengths as documented)
+//@ funcs: Message::to_vec; Message::serialized_len; Message::write_to; Message::into_wire_bytes; io::write_message; io::write_message_streaming; Header::encode
+//@ symbolic: all 11 header fields full width (including inconsistent length fields), all query and body bytes
+//@ bounds: |query|=2, |body|=3 (per-instance constants); body buffer capacity 52 = one below the in-place threshold 53; sink accepts 2 byte(s) per write call; unwind 66
+//@ oracle: independent REPE v1 (offset,width) table || query || body, compared bytewise
+c01_routes!(c01_routes_q2_b3_cap52_w2, 2, 3, 52, 2);
+
+//@ name: c01_routes_q2_b3_cap53_w2
+//@ prop: C01
+//@ tier: thorough
+//@ timeout: 1500
+//@ clause: every emission route (to_vec, write_to, write_message, write_message_streaming, into_wire_bytes) yields exactly 48 spec-layout header bytes, then the query, then the body; header copied verbatim (streaming writer patches the three lengths as documented)
+//@ funcs: Message::to_vec; Message::serialized_len; Message::write_to; Message::into_wire_bytes; io::write_message; io::write_message_streaming; Header::encode
+//@ symbolic: all 11 header fields full width (including inconsistent length fields), all query and body bytes
+//@ bounds: |query|=2, |body|=3 (per-instance constants); body buffer capacity 53 = equal to the in-place threshold 53; sink accepts 2 byte(s) per write call; unwind 66
+//@ oracle: independent REPE v1 (offset,width) table || query || body, compared bytewise
+c01_routes!(c01_routes_q2_b3_cap53_w2, 2, 3, 53, 2);
+
+//@ name: c01_routes_q2_b3_cap54_w64
+//@ prop: C01
+//@ tier: thorough
+//@ timeout: 1500
+//@ clause: every emission route (to_vec, write_to, write_message, write_message_streaming, into_wire_bytes) yields exactly 48 spec-layout header bytes, then the query, then the body; header copied verbatim (streaming writer patches the three lengths as documented)
+//@ funcs: Message::to_vec; Message::serialized_len; Message::write_to; Message::into_wire_bytes; io::write_message; io::write_message_streaming; Header::encode
+//@ symbolic: all 11 header fields full width (including inconsistent length fields), all query and body bytes
+//@ bounds: |query|=2, |body|=3 (per-instance constants); body buffer capacity 54 = one above the in-place threshold 53; sink accepts 64 byte(s) per write call; unwind 66
+//@ oracle: independent REPE v1 (offset,width) table || query || body, compared bytewise
+c01_routes!(c01_routes_q2_b3_cap54_w64, 2, 3, 54, 64);
+
+fn consistent_header<const Q: usize, const B: usize>() -> Header {
+    let mut h = any_header();
+    h.spec = crate::constants::REPE_SPEC;
+    h.query_length = Q as u64;
+    h.body_length = B as u64;
+    h.length = (48 + Q + B) as u64;
+    h
+}
+
+fn parse_back<const Q: usize, const B: usize>() {
+    let h = consistent_header::<Q, B>();
+    let q: [u8; Q] = kani::any();
+    let b: [u8; B] = kani::any();
+    let m = Message { header: h, query: q.to_vec(), body: b.to_vec() };
+    let bytes = m.to_vec();
+    let back = Message::from_slice(&bytes).expect("own output must parse");
+    assert!(back.header == m.header, "header changed across serialise/parse");
+    assert!(back.query == m.query && back.body == m.body, "payload changed across serialise/parse");
+    let back2 = Message::from_slice_exact(&bytes).expect("own output must parse exactly");
+    assert!(back2 == m);
+    let v = MessageView::from_slice_exact(&bytes).expect("own output must parse as a view");
+    assert!(v.header == m.header);
+    assert!(v.query.as_ptr() == bytes[48..].as_ptr() && v.query.len() == Q);
+    assert!(v.body.as_ptr() == bytes[48 + Q..].as_ptr() && v.body.len() == B);
+    let owned = v.to_message();
+    assert!(owned == m, "MessageView::to_message differs from the original");
+    kani::cover!(h.reserved != 0 && h.query_format == 0xffff && h.version != 1 && h.notify > 1);
+    std::mem::forget(bytes);
+}
+
+//@ prop: C01
+//@ tier: quick
+//@ clause: parsing the serialized bytes returns an identical message (owned, exact and borrowed parsers), preserving every header field including reserved bits and unknown format codes
+//@ funcs: Message::to_vec; Message::from_slice; Message::from_slice_exact; MessageView::from_slice_exact; MessageView::to_message; Header::encode; Header::decode
+//@ symbolic: all header fields except the magic and the three lengths (which are set consistently), query and body bytes
+//@ bounds: |query|=2, |body|=3; unwind 55
+//@ oracle: structural equality with the original message; pointer identity of the borrowed ranges
+#[kani::proof]
+#[kani::unwind(55)]
+fn c01_parse_back_q2_b3() {
+    parse_back::<2, 3>();
+}
+
+//@ prop: C01
+//@ tier: thorough
+//@ clause: as c01_parse_back_q2_b3, header-only frame
+//@ funcs: Message::to_vec; Message::from_slice; Message::from_slice_exact; MessageView::from_slice_exact; MessageView::to_message
+//@ symbolic: as c01_parse_back_q2_b3
+//@ bounds: |query|=0, |body|=0; unwind 55
+//@ oracle: structural equality
+#[kani::proof]
+#[kani::unwind(55)]
+fn c01_parse_back_q0_b0() {
+    parse_back::<0, 0>();
+}
+
+//@ prop: C01
+//@ tier: thorough
+//@ clause: as c01_parse_back_q2_b3, empty query
+//@ funcs: Message::to_vec; Message::from_slice; Message::from_slice_exact; MessageView::from_slice_exact; MessageView::to_message
+//@ symbolic: as c01_parse_back_q2_b3
+//@ bounds: |query|=0, |body|=3; unwind 55
+//@ oracle: structural equality
+#[kani::proof]
+#[kani::unwind(55)]
+fn c01_parse_back_q0_b3() {
+    parse_back::<0, 3>();
+}
+
+//@ prop: C01
+//@ tier: quick
+//@ clause: MessageBuilder::build fills length = 48+|query|+|body|, query_length, body_length, magic and version; ids, flags, error code and format codes (unknown codes included) are carried verbatim
+//@ funcs: MessageBuilder::build; MessageBuilder::{id,notify,query_format_code,body_format_code,query_bytes,body_bytes}
+//@ symbolic: id, notify, both 16-bit format codes, the 32-bit error code, payload bytes
+//@ bounds: |query|=2, |body|=3
+//@ oracle: field-by-field from the statement (format code 0 is RawBinary = 0)
+#[kani::proof]
+#[kani::unwind(8)]
+fn c01_builder_build() {
+    let id: u64 = kani::any();
+    let notify: bool = kani::any();
+    let qf: u16 = kani::any();
+    let bf: u16 = kani::any();
+    let ec: u32 = kani::any();
+    let q: [u8; 2] = kani::any();
+    let b: [u8; 3] = kani::any();
+    let mut bld = Message::builder()
+        .id(id)
+        .notify(notify)
+        .query_format_code(qf)
+        .body_format_code(bf)
+        .query_bytes(q.to_vec())
+        .body_bytes(b.to_vec());
+    bld.ec = ec;
+    let m = bld.build();
+    assert!(m.header.length == 53 && m.header.query_length == 2 && m.header.body_length == 3);
+    assert!(m.header.spec == 0x1507 && m.header.version == 1 && m.header.reserved == 0);
+    assert!(m.header.id == id && m.header.notify == notify as u8 && m.header.ec == ec);
+    assert!(m.header.query_format == qf && m.header.body_format == bf);
+    assert!(m.query[..] == q[..] && m.body[..] == b[..]);
+    std::mem::forget(m);
+}
+
+/// Server-side framing parity: the TCP server frames a response with
+/// response_echo_query + write_message_streaming, the WebSocket server with
+/// stamp_response_query + into_wire_bytes; both must put the same bytes on the
+/// wire for the same response and request query.
+fn framing_parity<const RQ: usize, const OWNQ: usize, const B: usize>() {
+    // response as a handler / the response builders produce it: consistent header
+    let h = consistent_header::<OWNQ, B>();
+    let own: [u8; OWNQ] = kani::any();
+    let b: [u8; B] = kani::any();
+    let rq: [u8; RQ] = kani::any();
+    let resp = Message { header: h, query: own.to_vec(), body: b.to_vec() };
+
+    // TCP (src/server.rs handle_connection)
+    let mut tcp = ShortSink::<64>::new();
+    let echo = response_echo_query(&resp, &rq);
+    crate::io::write_message_streaming(&mut tcp, resp.header, echo, resp.body.len() as u64, |w| {
+        use std::io::Write;
+        w.write_all(&resp.body)
+    })
+    .unwrap();
+
+    // WebSocket (stamp borrowed, then into_wire_bytes)
+    let mut ws_resp = resp.clone();
+    stamp_response_query(&mut ws_resp, Cow::Borrowed(&rq[..]));
+    let ws = ws_resp.into_wire_bytes();
+    // WebSocket off-reader (stamp owned)
+    let mut ws_resp2 = resp.clone();
+    stamp_response_query(&mut ws_resp2, Cow::Owned(rq.to_vec()));
+    let ws2 = ws_resp2.to_vec();
+
+    assert!(tcp.len == ws.len() && ws.len() == ws2.len(), "transports frame different lengths");
+    let mut i = 0;
+    while i < tcp.len {
+        assert!(tcp.out[i] == ws[i] && ws[i] == ws2[i], "TCP and WebSocket framing differ");
+        i += 1;
+    }
+    // and the frame is what the statement says: handler-chosen query wins, else the request's
+    let eq_len = if OWNQ > 0 { OWNQ } else { RQ };
+    assert!(tcp.len == 48 + eq_len + B);
+    let parsed = MessageView::from_slice_exact(&ws).expect("framed response must parse");
+    assert!(parsed.header.id == h.id && parsed.header.ec == h.ec);
+    if OWNQ > 0 {
+        assert!(parsed.query == &own[..]);
+    } else {
+        assert!(parsed.query == &rq[..]);
+    }
+    assert!(parsed.body == &b[..]);
+    std::mem::forget(ws);
+    std::mem::forget(ws2);
+}
+
+//@ prop: C01
+//@ tier: quick
+//@ clause: server-side response framing is byte-identical on the blocking-TCP route (borrowed query echo + streaming writer) and the WebSocket routes (stamp + into_wire_bytes / to_vec); request query echoed when the handler left it empty
+//@ funcs: message::response_echo_query; message::stamp_response_query; io::write_message_streaming; Message::into_wire_bytes; Message::to_vec; MessageView::from_slice_exact
+//@ symbolic: response header (all fields except magic/lengths), response body bytes, request query bytes
+//@ bounds: |request query|=2, response query empty, |body|=3; unwind 60
+//@ oracle: pairwise byte equality + parse-back against the statement
+#[kani::proof]
+#[kani::unwind(60)]
+fn c01_server_framing_echo() {
+    framing_parity::<2, 0, 3>();
+}
+
+//@ prop: C01
+//@ tier: quick
+//@ clause: as c01_server_framing_echo, handler set its own response query (it must be preserved, not overwritten by the request's)
+//@ funcs: message::response_echo_query; message::stamp_response_query; io::write_message_streaming; Message::into_wire_bytes; Message::to_vec
+//@ symbolic: as c01_server_framing_echo plus the handler-set query bytes
+//@ bounds: |request query|=2, |response query|=1, |body|=3; unwind 60
+//@ oracle: pairwise byte equality + parse-back
+#[kani::proof]
+#[kani::unwind(60)]
+fn c01_server_framing_own_query() {
+    framing_parity::<2, 1, 3>();
+}
+
+//@ prop: C01
+//@ tier: thorough
+//@ clause: as c01_server_framing_echo, empty request query and empty body
+//@ funcs: message::response_echo_query; message::stamp_response_query; io::write_message_streaming; Message::into_wire_bytes; Message::to_vec
+//@ symbolic: as c01_server_framing_echo
+//@ bounds: |request query|=0, response query empty, |body|=0; unwind 60
+//@ oracle: pairwise byte equality + parse-back
+#[kani::proof]
+#[kani::unwind(60)]
+fn c01_server_framing_empty() {
+    framing_parity::<0, 0, 0>();
+}
+
+// ===========================================================================
+// C08: bulk numeric bodies (bulk path of beve; the serde walk is out of reach)
+// ===========================================================================
+trait Bits: Copy + beve::BeveTypedSlice + kani::Arbitrary {
+    fn bits(self) -> u64;
+}
+macro_rules! bits_int {
+    ($($t:ty),*) => { $(impl Bits for $t { fn bits(self) -> u64 { self as u64 } })* };
+}
+bits_int!(u8, u16, u32, u64, i8, i16, i32, i64);
+impl Bits for f32 {
+    fn bits(self) -> u64 {
+        self.to_bits() as u64
+    }
+}
+impl Bits for f64 {
+    fn bits(self) -> u64 {
+        self.to_bits()
+    }
+}
+
+fn same_bits<T: Bits>(a: &[T], b: &[T]) -> bool {
+    if a.len() != b.len() {
+        return false;
+    }
+    let mut i = 0;
+    while i < a.len() {
+        if a[i].bits() != b[i].bits() {
+            return false;
+        }
+        i += 1;
+    }
+    true
+}
+
+/// Round trip, streamed == buffered, format guard, element-type guard.
+fn bulk_roundtrip<T: Bits, U: Bits, const N: usize>() {
+    let xs: [T; N] = kani::any();
+    let id: u64 = kani::any();
+    let q = [b'/', b'v'];
+    let msg = Message::builder().id(id).query_bytes(q.to_vec()).query_format_code(1).body_typed_slice(&xs).build();
+    assert!(msg.header.body_format == BodyFormat::Beve as u16);
+    assert!(msg.header.length as usize == 48 + 2 + msg.body.len());
+    // decode exactly (NaN payloads / infinities / extreme integers are just bit patterns)
+    let back_r = msg.decode_typed_slice::<T>();
+    match &back_r {
+        Ok(back) => assert!(same_bits(back, &xs), "decoded elements are not bit-for-bit the originals"),
+        Err(_) => panic!("own bulk encoding must decode"),
+    }
+    // streaming writer emits the same frame as the buffered builder
+    let mut a = ShortSink::<64>::new();
+    let wa = crate::io::write_message(&mut a, &msg);
+    assert!(wa.is_ok());
+    std::mem::forget(wa);
+    let mut hdr = msg.header;
+    hdr.body_format = kani::any(); // whatever the caller left there: the writer must set Beve
+    hdr.length = 0;
+    hdr.body_length = 0;
+    hdr.query_length = 0;
+    let mut b = ShortSink::<64>::new();
+    let wb = crate::io::write_message_typed_slice(&mut b, hdr, &q, &xs);
+    assert!(wb.is_ok());
+    std::mem::forget(wb);
+    assert!(a.len == b.len, "streamed frame length differs from the buffered one");
+    let mut i = 0;
+    while i < a.len {
+        assert!(a.out[i] == b.out[i], "streamed frame differs from the buffered one");
+        i += 1;
+    }
+    // a body of another element type is rejected, never reinterpreted
+    let wrong = msg.decode_typed_slice::<U>();
+    assert!(wrong.is_err(), "a body of another element type was reinterpreted");
+    std::mem::forget(wrong);
+    // a body of the wrong format is rejected
+    let mut other = msg.clone();
+    let bf: u16 = kani::any();
+    kani::assume(bf != BodyFormat::Beve as u16);
+    other.header.body_format = bf;
+    let guard_r = other.decode_typed_slice::<T>();
+    match &guard_r {
+        Err(RepeError::UnexpectedBodyFormat { got, .. }) => assert!(*got == bf),
+        _ => panic!("a non-BEVE body was decoded as a bulk array"),
+    }
+    std::mem::forget(guard_r);
+    std::mem::forget(back_r);
+    std::mem::forget(other);
+    std::mem::forget(msg);
+}
+
+macro_rules! c08_bulk {
+    ($name:ident, $t:ty, $u:ty, $n:expr) => {
+        #[kani::proof]
+        #[kani::unwind(70)]
+        fn $name() {
+            bulk_roundtrip::<$t, $u, $n>();
+        }
+    };
+}
+
+/// Aligned form: for query length QL the payload block starts at an absolute
+/// frame offset that is a multiple of align_of::<T>(), survives into_wire_bytes,
+/// and decodes to the same elements.
+fn aligned_roundtrip<T: Bits, const N: usize, const QL: usize>() {
+    let xs: [T; N] = kani::any();
+    let q = [b'/'; QL];
+    let msg = Message::builder().id(3).query_bytes(q.to_vec()).query_format_code(1).body_aligned_typed_slice(&xs).build();
+    let payload = N * std::mem::size_of::<T>();
+    let align = std::mem::align_of::<T>();
+    let body_len = msg.body.len();
+    assert!(msg.header.body_length as usize == body_len && msg.header.length as usize == 48 + QL + body_len);
+    let payload_off_in_frame = 48 + QL + body_len - payload;
+    assert!(payload_off_in_frame % align == 0, "aligned payload does not start on an element boundary of the frame");
+    // owned decoder reads it for any buffer
+    let back = beve::read_aligned_typed_slice::<T>(&msg.body);
+    match &back {
+        Ok(v) => assert!(same_bits(v, &xs), "aligned decode differs from the originals"),
+        Err(_) => panic!("aligned body must decode"),
+    }
+    // the generic bulk decoder must NOT reinterpret the aligned form as a plain typed array of T
+    // wire bytes keep the payload where the padding was computed for
+    let expected_total = 48 + QL + body_len;
+    let wire = msg.into_wire_bytes();
+    assert!(wire.len() == expected_total);
+    let v = MessageView::from_slice_exact(&wire).expect("own frame parses");
+    let back2 = beve::read_aligned_typed_slice::<T>(v.body);
+    match &back2 {
+        Ok(v2) => assert!(same_bits(v2, &xs)),
+        Err(_) => panic!("aligned body must decode from the wire frame"),
+    }
+    kani::cover!(body_len - payload > 4); // some padding was needed
+    std::mem::forget(back);
+    std::mem::forget(back2);
+    std::mem::forget(wire);
+}
+
+macro_rules! c08_aligned {
+    ($name:ident, $t:ty, $n:expr, $ql:expr) => {
+        #[kani::proof]
+        #[kani::unwind(90)]
+        fn $name() {
+            aligned_roundtrip::<$t, $n, $ql>();
+        }
+    };
+}
+
+//@ name: c08_bulk_roundtrip_u8
+//@ prop: C08
+//@ tier: thorough
+//@ clause: for element type u8: the bulk decoder returns bit-for-bit the originals (NaN payloads, infinities, extreme integers are just bit patterns); the streaming writer emits the same frame as the buffered builder; a body of another element type (i8) or of another body format is rejected rather than reinterpreted
+//@ funcs: MessageBuilder::body_typed_slice; Message::decode_typed_slice; Message::require_body_format; io::write_message_typed_slice; io::write_message_streaming; io::write_message; beve::to_writer_typed_slice; beve::typed_slice_size; beve::read_typed_slice
+//@ symbolic: 2 elements of u8 (every bit pattern), request id, the wrong body-format code (all u16 except Beve)
+//@ bounds: 2 elements; query "/v"; unwind 70
+//@ oracle: to_bits equality; byte equality of the two frames; Err on the two guards
+//@ out: identity with the generic serde encoding (beve's serde walk exhausts memory under CBMC) is NOT decided
+c08_bulk!(c08_bulk_roundtrip_u8, u8, i8, 2);
+
+//@ name: c08_bulk_roundtrip_u16
+//@ prop: C08
+//@ tier: experimental
+//@ timeout: 2400
+//@ clause: for element type u16: the bulk decoder returns bit-for-bit the originals (NaN payloads, infinities, extreme integers are just bit patterns); the streaming writer emits the same frame as the buffered builder; a body of another element type (i16) or of another body format is rejected rather than reinterpreted
+//@ funcs: MessageBuilder::body_typed_slice; Message::decode_typed_slice; Message::require_body_format; io::write_message_typed_slice; io::write_message_streaming; io::write_message; beve::to_writer_typed_slice; beve::typed_slice_size; beve::read_typed_slice
+//@ symbolic: 2 elements of u16 (every bit pattern), request id, the wrong body-format code (all u16 except Beve)
+//@ bounds: 2 elements; query "/v"; unwind 70
+//@ oracle: to_bits equality; byte equality of the two frames; Err on the two guards
+//@ out: identity with the generic serde encoding (beve's serde walk exhausts memory under CBMC) is NOT decided
+c08_bulk!(c08_bulk_roundtrip_u16, u16, i16, 2);
+
+//@ name: c08_bulk_roundtrip_u32
+//@ prop: C08
+//@ tier: thorough
+//@ clause: for element type u32: the bulk decoder returns bit-for-bit the originals (NaN payloads, infinities, extreme integers are just bit patterns); the streaming writer emits the same frame as the buffered builder; a body of another element type (f32) or of another body format is rejected rather than reinterpreted
+//@ funcs: MessageBuilder::body_typed_slice; Message::decode_typed_slice; Message::require_body_format; io::write_message_typed_slice; io::write_message_streaming; io::write_message; beve::to_writer_typed_slice; beve::typed_slice_size; beve::read_typed_slice
+//@ symbolic: 2 elements of u32 (every bit pattern), request id, the wrong body-format code (all u16 except Beve)
+//@ bounds: 2 elements; query "/v"; unwind 70
+//@ oracle: to_bits equality; byte equality of the two frames; Err on the two guards
+//@ out: identity with the generic serde encoding (beve's serde walk exhausts memory under CBMC) is NOT decided
+c08_bulk!(c08_bulk_roundtrip_u32, u32, f32, 2);
+
+//@ name: c08_bulk_roundtrip_u64
+//@ prop: C08
+//@ tier: thorough
+//@ clause: for element type u64: the bulk decoder returns bit-for-bit the originals (NaN payloads, infinities, extreme integers are just bit patterns); the streaming writer emits the same frame as the buffered builder; a body of another element type (f64) or of another body format is rejected rather than reinterpreted
+//@ funcs: MessageBuilder::body_typed_slice; Message::decode_typed_slice; Message::require_body_format; io::write_message_typed_slice; io::write_message_streaming; io::write_message; beve::to_writer_typed_slice; beve::typed_slice_size; beve::read_typed_slice
+//@ symbolic: 2 elements of u64 (every bit pattern), request id, the wrong body-format code (all u16 except Beve)
+//@ bounds: 2 elements; query "/v"; unwind 70
+//@ oracle: to_bits equality; byte equality of the two frames; Err on the two guards
+//@ out: identity with the generic serde encoding (beve's serde walk exhausts memory under CBMC) is NOT decided
+c08_bulk!(c08_bulk_roundtrip_u64, u64, f64, 2);
+
+//@ name: c08_bulk_roundtrip_i8
+//@ prop: C08
+//@ tier: thorough
+//@ clause: for element type i8: the bulk decoder returns bit-for-bit the originals (NaN payloads, infinities, extreme integers are just bit patterns); the streaming writer emits the same frame as the buffered builder; a body of another element type (u8) or of another body format is rejected rather than reinterpreted
+//@ funcs: MessageBuilder::body_typed_slice; Message::decode_typed_slice; Message::require_body_format; io::write_message_typed_slice; io::write_message_streaming; io::write_message; beve::to_writer_typed_slice; beve::typed_slice_size; beve::read_typed_slice
+//@ symbolic: 2 elements of i8 (every bit pattern), request id, the wrong body-format code (all u16 except Beve)
+//@ bounds: 2 elements; query "/v"; unwind 70
+//@ oracle: to_bits equality; byte equality of the two frames; Err on the two guards
+//@ out: identity with the generic serde encoding (beve's serde walk exhausts memory under CBMC) is NOT decided
+c08_bulk!(c08_bulk_roundtrip_i8, i8, u8, 2);
+
+//@ name: c08_bulk_roundtrip_i16
+//@ prop: C08
+//@ tier: thorough
+//@ clause: for element type i16: the bulk decoder returns bit-for-bit the originals (NaN payloads, infinities, extreme integers are just bit patterns); the streaming writer emits the same frame as the buffered builder; a body of another element type (u16) or of another body format is rejected rather than reinterpreted
+//@ funcs: MessageBuilder::body_typed_slice; Message::decode_typed_slice; Message::require_body_format; io::write_message_typed_slice; io::write_message_streaming; io::write_message; beve::to_writer_typed_slice; beve::typed_slice_size; beve::read_typed_slice
+//@ symbolic: 2 elements of i16 (every bit pattern), request id, the wrong body-format code (all u16 except Beve)
+//@ bounds: 2 elements; query "/v"; unwind 70
+//@ oracle: to_bits equality; byte equality of the two frames; Err on the two guards
+//@ out: identity with the generic serde encoding (beve's serde walk exhausts memory under CBMC) is NOT decided
+c08_bulk!(c08_bulk_roundtrip_i16, i16, u16, 2);
+
+//@ name: c08_bulk_roundtrip_i32
+//@ prop: C08
+//@ tier: thorough
+//@ clause: for element type i32: the bulk decoder returns bit-for-bit the originals (NaN payloads, infinities, extreme integers are just bit patterns); the streaming writer emits the same frame as the buffered builder; a body of another element type (u32) or of another body format is rejected rather than reinterpreted
+//@ funcs: MessageBuilder::body_typed_slice; Message::decode_typed_slice; Message::require_body_format; io::write_message_typed_slice; io::write_message_streaming; io::write_message; beve::to_writer_typed_slice; beve::typed_slice_size; beve::read_typed_slice
+//@ symbolic: 2 elements of i32 (every bit pattern), request id, the wrong body-format code (all u16 except Beve)
+//@ bounds: 2 elements; query "/v"; unwind 70
+//@ oracle: to_bits equality; byte equality of the two frames; Err on the two guards
+//@ out: identity with the generic serde encoding (beve's serde walk exhausts memory under CBMC) is NOT decided
+c08_bulk!(c08_bulk_roundtrip_i32, i32, u32, 2);
+
+//@ name: c08_bulk_roundtrip_i64
+//@ prop: C08
+//@ tier: thorough
+//@ clause: for element type i64: the bulk decoder returns bit-for-bit the originals (NaN payloads, infinities, extreme integers are just bit patterns); the streaming writer emits the same frame as the buffered builder; a body of another element type (u64) or of another body format is rejected rather than reinterpreted
+//@ funcs: MessageBuilder::body_typed_slice; Message::decode_typed_slice; Message::require_body_format; io::write_message_typed_slice; io::write_message_streaming; io::write_message; beve::to_writer_typed_slice; beve::typed_slice_size; beve::read_typed_slice
+//@ symbolic: 2 elements of i64 (every bit pattern), request id, the wrong body-format code (all u16 except Beve)
+//@ bounds: 2 elements; query "/v"; unwind 70
+//@ oracle: to_bits equality; byte equality of the two frames; Err on the two guards
+//@ out: identity with the generic serde encoding (beve's serde walk exhausts memory under CBMC) is NOT decided
+c08_bulk!(c08_bulk_roundtrip_i64, i64, u64, 2);
+
+//@ name: c08_bulk_roundtrip_f32
+//@ prop: C08
+//@ tier: thorough
+//@ clause: for element type f32: the bulk decoder returns bit-for-bit the originals (NaN payloads, infinities, extreme integers are just bit patterns); the streaming writer emits the same frame as the buffered builder; a body of another element type (i32) or of another body format is rejected rather than reinterpreted
+//@ funcs: MessageBuilder::body_typed_slice; Message::decode_typed_slice; Message::require_body_format; io::write_message_typed_slice; io::write_message_streaming; io::write_message; beve::to_writer_typed_slice; beve::typed_slice_size; beve::read_typed_slice
+//@ symbolic: 2 elements of f32 (every bit pattern), request id, the wrong body-format code (all u16 except Beve)
+//@ bounds: 2 elements; query "/v"; unwind 70
+//@ oracle: to_bits equality; byte equality of the two frames; Err on the two guards
+//@ out: identity with the generic serde encoding (beve's serde walk exhausts memory under CBMC) is NOT decided
+c08_bulk!(c08_bulk_roundtrip_f32, f32, i32, 2);
+
+//@ name: c08_bulk_roundtrip_f64
+//@ prop: C08
+//@ tier: quick
+//@ clause: for element type f64: the bulk decoder returns bit-for-bit the originals (NaN payloads, infinities, extreme integers are just bit patterns); the streaming writer emits the same frame as the buffered builder; a body of another element type (i64) or of another body format is rejected rather than reinterpreted
+//@ funcs: MessageBuilder::body_typed_slice; Message::decode_typed_slice; Message::require_body_format; io::write_message_typed_slice; io::write_message_streaming; io::write_message; beve::to_writer_typed_slice; beve::typed_slice_size; beve::read_typed_slice
+//@ symbolic: 2 elements of f64 (every bit pattern), request id, the wrong body-format code (all u16 except Beve)
+//@ bounds: 2 elements; query "/v"; unwind 70
+//@ oracle: to_bits equality; byte equality of the two frames; Err on the two guards
+//@ out: identity with the generic serde encoding (beve's serde walk exhausts memory under CBMC) is NOT decided
+c08_bulk!(c08_bulk_roundtrip_f64, f64, i64, 2);
+
+//@ name: c08_bulk_roundtrip_empty_f32
+//@ prop: C08
+//@ tier: experimental
+//@ timeout: 2400
+//@ clause: the empty slice round-trips through the bulk encoder/decoder and streams identically
+//@ funcs: MessageBuilder::body_typed_slice; Message::decode_typed_slice; io::write_message_typed_slice; beve::read_typed_slice
+//@ symbolic: request id, wrong body-format code
+//@ bounds: 0 elements of f32; unwind 70
+//@ oracle: decoded length 0; frames equal
+c08_bulk!(c08_bulk_roundtrip_empty_f32, f32, u32, 0);
+
+//@ name: c08_aligned_f64_q0
+//@ prop: C08
+//@ tier: quick
+//@ clause: alignment-padded form for f64 with a 0-byte query (residue 0 mod 8): the payload starts at an absolute frame offset that is a multiple of the element alignment, stays there through into_wire_bytes, and decodes to the same elements
+//@ funcs: MessageBuilder::body_aligned_typed_slice; beve::aligned_typed_slice_size; beve::write_aligned_typed_slice_at; beve::read_aligned_typed_slice; Message::into_wire_bytes; MessageView::from_slice_exact
+//@ symbolic: 2 elements of f64 (every bit pattern)
+//@ bounds: 2 elements; query length 0 (per-instance constant); unwind 90
+//@ oracle: (48 + |query| + body_len - payload) % align_of == 0; to_bits equality
+c08_aligned!(c08_aligned_f64_q0, f64, 2, 0);
+
+//@ name: c08_aligned_f64_q1
+//@ prop: C08
+//@ tier: thorough
+//@ clause: alignment-padded form for f64 with a 1-byte query (residue 1 mod 8): the payload starts at an absolute frame offset that is a multiple of the element alignment, stays there through into_wire_bytes, and decodes to the same elements
+//@ funcs: MessageBuilder::body_aligned_typed_slice; beve::aligned_typed_slice_size; beve::write_aligned_typed_slice_at; beve::read_aligned_typed_slice; Message::into_wire_bytes; MessageView::from_slice_exact
+//@ symbolic: 2 elements of f64 (every bit pattern)
+//@ bounds: 2 elements; query length 1 (per-instance constant); unwind 90
+//@ oracle: (48 + |query| + body_len - payload) % align_of == 0; to_bits equality
+c08_aligned!(c08_aligned_f64_q1, f64, 2, 1);
+
+//@ name: c08_aligned_f64_q2
+//@ prop: C08
+//@ tier: thorough
+//@ clause: alignment-padded form for f64 with a 2-byte query (residue 2 mod 8): the payload starts at an absolute frame offset that is a multiple of the element alignment, stays there through into_wire_bytes, and decodes to the same elements
+//@ funcs: MessageBuilder::body_aligned_typed_slice; beve::aligned_typed_slice_size; beve::write_aligned_typed_slice_at; beve::read_aligned_typed_slice; Message::into_wire_bytes; MessageView::from_slice_exact
+//@ symbolic: 2 elements of f64 (every bit pattern)
+//@ bounds: 2 elements; query length 2 (per-instance constant); unwind 90
+//@ oracle: (48 + |query| + body_len - payload) % align_of == 0; to_bits equality
+c08_aligned!(c08_aligned_f64_q2, f64, 2, 2);
+
+//@ name: c08_aligned_f64_q3
+//@ prop: C08
+//@ tier: quick
+//@ clause: alignment-padded form for f64 with a 3-byte query (residue 3 mod 8): the payload starts at an absolute frame offset that is a multiple of the element alignment, stays there through into_wire_bytes, and decodes to the same elements
+//@ funcs: MessageBuilder::body_aligned_typed_slice; beve::aligned_typed_slice_size; beve::write_aligned_typed_slice_at; beve::read_aligned_typed_slice; Message::into_wire_bytes; MessageView::from_slice_exact
+//@ symbolic: 2 elements of f64 (every bit pattern)
+//@ bounds: 2 elements; query length 3 (per-instance constant); unwind 90
+//@ oracle: (48 + |query| + body_len - payload) % align_of == 0; to_bits equality
+c08_aligned!(c08_aligned_f64_q3, f64, 2, 3);
+
+//@ name: c08_aligned_f64_q4
+//@ prop: C08
+//@ tier: thorough
+//@ clause: alignment-padded form for f64 with a 4-byte query (residue 4 mod 8): the payload starts at an absolute frame offset that is a multiple of the element alignment, stays there through into_wire_bytes, and decodes to the same elements
+//@ funcs: MessageBuilder::body_aligned_typed_slice; beve::aligned_typed_slice_size; beve::write_aligned_typed_slice_at; beve::read_aligned_typed_slice; Message::into_wire_bytes; MessageView::from_slice_exact
+//@ symbolic: 2 elements of f64 (every bit pattern)
+//@ bounds: 2 elements; query length 4 (per-instance constant); unwind 90
+//@ oracle: (48 + |query| + body_len - payload) % align_of == 0; to_bits equality
+c08_aligned!(c08_aligned_f64_q4, f64, 2, 4);
+
+//@ name: c08_aligned_f64_q5
+//@ prop: C08
+//@ tier: thorough
+//@ clause: alignment-padded form for f64 with a 5-byte query (residue 5 mod 8): the payload starts at an absolute frame offset that is a multiple of the element alignment, stays there through into_wire_bytes, and decodes to the same elements
+//@ funcs: MessageBuilder::body_aligned_typed_slice; beve::aligned_typed_slice_size; beve::write_aligned_typed_slice_at; beve::read_aligned_typed_slice; Message::into_wire_bytes; MessageView::from_slice_exact
+//@ symbolic: 2 elements of f64 (every bit pattern)
+//@ bounds: 2 elements; query length 5 (per-instance constant); unwind 90
+//@ oracle: (48 + |query| + body_len - payload) % align_of == 0; to_bits equality
+c08_aligned!(c08_aligned_f64_q5, f64, 2, 5);
+
+//@ name: c08_aligned_f64_q6
+//@ prop: C08
+//@ tier: thorough
+//@ clause: alignment-padded form for f64 with a 6-byte query (residue 6 mod 8): the payload starts at an absolute frame offset that is a multiple of the element alignment, stays there through into_wire_bytes, and decodes to the same elements
+//@ funcs: MessageBuilder::body_aligned_typed_slice; beve::aligned_typed_slice_size; beve::write_aligned_typed_slice_at; beve::read_aligned_typed_slice; Message::into_wire_bytes; MessageView::from_slice_exact
+//@ symbolic: 2 elements of f64 (every bit pattern)
+//@ bounds: 2 elements; query length 6 (per-instance constant); unwind 90
+//@ oracle: (48 + |query| + body_len - payload) % align_of == 0; to_bits equality
+c08_aligned!(c08_aligned_f64_q6, f64, 2, 6);
+
+//@ name: c08_aligned_f64_q7
+//@ prop: C08
+//@ tier: thorough
+//@ clause: alignment-padded form for f64 with a 7-byte query (residue 7 mod 8): the payload starts at an absolute frame offset that is a multiple of the element alignment, stays there through into_wire_bytes, and decodes to the same elements
+//@ funcs: MessageBuilder::body_aligned_typed_slice; beve::aligned_typed_slice_size; beve::write_aligned_typed_slice_at; beve::read_aligned_typed_slice; Message::into_wire_bytes; MessageView::from_slice_exact
+//@ symbolic: 2 elements of f64 (every bit pattern)
+//@ bounds: 2 elements; query length 7 (per-instance constant); unwind 90
+//@ oracle: (48 + |query| + body_len - payload) % align_of == 0; to_bits equality
+c08_aligned!(c08_aligned_f64_q7, f64, 2, 7);
+
+//@ name: c08_aligned_f64_q8
+//@ prop: C08
+//@ tier: thorough
+//@ clause: alignment-padded form for f64 with a 8-byte query (residue 8 mod 8): the payload starts at an absolute frame offset that is a multiple of the element alignment, stays there through into_wire_bytes, and decodes to the same elements
+//@ funcs: MessageBuilder::body_aligned_typed_slice; beve::aligned_typed_slice_size; beve::write_aligned_typed_slice_at; beve::read_aligned_typed_slice; Message::into_wire_bytes; MessageView::from_slice_exact
+//@ symbolic: 2 elements of f64 (every bit pattern)
+//@ bounds: 2 elements; query length 8 (per-instance constant); unwind 90
+//@ oracle: (48 + |query| + body_len - payload) % align_of == 0; to_bits equality
+c08_aligned!(c08_aligned_f64_q8, f64, 2, 8);
+
+//@ name: c08_aligned_u16_q0
+//@ prop: C08
+//@ tier: thorough
+//@ clause: alignment-padded form for u16 with a 0-byte query (residue 0 mod 8): the payload starts at an absolute frame offset that is a multiple of the element alignment, stays there through into_wire_bytes, and decodes to the same elements
+//@ funcs: MessageBuilder::body_aligned_typed_slice; beve::aligned_typed_slice_size; beve::write_aligned_typed_slice_at; beve::read_aligned_typed_slice; Message::into_wire_bytes; MessageView::from_slice_exact
+//@ symbolic: 2 elements of u16 (every bit pattern)
+//@ bounds: 2 elements; query length 0 (per-instance constant); unwind 90
+//@ oracle: (48 + |query| + body_len - payload) % align_of == 0; to_bits equality
+c08_aligned!(c08_aligned_u16_q0, u16, 2, 0);
+
+//@ name: c08_aligned_u16_q1
+//@ prop: C08
+//@ tier: quick
+//@ clause: alignment-padded form for u16 with a 1-byte query (residue 1 mod 8): the payload starts at an absolute frame offset that is a multiple of the element alignment, stays there through into_wire_bytes, and decodes to the same elements
+//@ funcs: MessageBuilder::body_aligned_typed_slice; beve::aligned_typed_slice_size; beve::write_aligned_typed_slice_at; beve::read_aligned_typed_slice; Message::into_wire_bytes; MessageView::from_slice_exact
+//@ symbolic: 2 elements of u16 (every bit pattern)
+//@ bounds: 2 elements; query length 1 (per-instance constant); unwind 90
+//@ oracle: (48 + |query| + body_len - payload) % align_of == 0; to_bits equality
+c08_aligned!(c08_aligned_u16_q1, u16, 2, 1);
+
+//@ name: c08_aligned_u16_q2
+//@ prop: C08
+//@ tier: thorough
+//@ clause: alignment-padded form for u16 with a 2-byte query (residue 2 mod 8): the payload starts at an absolute frame offset that is a multiple of the element alignment, stays there through into_wire_bytes, and decodes to the same elements
+//@ funcs: MessageBuilder::body_aligned_typed_slice; beve::aligned_typed_slice_size; beve::write_aligned_typed_slice_at; beve::read_aligned_typed_slice; Message::into_wire_bytes; MessageView::from_slice_exact
+//@ symbolic: 2 elements of u16 (every bit pattern)
+//@ bounds: 2 elements; query length 2 (per-instance constant); unwind 90
+//@ oracle: (48 + |query| + body_len - payload) % align_of == 0; to_bits equality
+c08_aligned!(c08_aligned_u16_q2, u16, 2, 2);
+
+//@ name: c08_aligned_u16_q3
+//@ prop: C08
+//@ tier: thorough
+//@ clause: alignment-padded form for u16 with a 3-byte query (residue 3 mod 8): the payload starts at an absolute frame offset that is a multiple of the element alignment, stays there through into_wire_bytes, and decodes to the same elements
+//@ funcs: MessageBuilder::body_aligned_typed_slice; beve::aligned_typed_slice_size; beve::write_aligned_typed_slice_at; beve::read_aligned_typed_slice; Message::into_wire_bytes; MessageView::from_slice_exact
+//@ symbolic: 2 elements of u16 (every bit pattern)
+//@ bounds: 2 elements; query length 3 (per-instance constant); unwind 90
+//@ oracle: (48 + |query| + body_len - payload) % align_of == 0; to_bits equality
+c08_aligned!(c08_aligned_u16_q3, u16, 2, 3);
+
+//@ name: c08_aligned_u16_q4
+//@ prop: C08
+//@ tier: thorough
+//@ clause: alignment-padded form for u16 with a 4-byte query (residue 4 mod 8): the payload starts at an absolute frame offset that is a multiple of the element alignment, stays there through into_wire_bytes, and decodes to the same elements
+//@ funcs: MessageBuilder::body_aligned_typed_slice; beve::aligned_typed_slice_size; beve::write_aligned_typed_slice_at; beve::read_aligned_typed_slice; Message::into_wire_bytes; MessageView::from_slice_exact
+//@ symbolic: 2 elements of u16 (every bit pattern)
+//@ bounds: 2 elements; query length 4 (per-instance constant); unwind 90
+//@ oracle: (48 + |query| + body_len - payload) % align_of == 0; to_bits equality
+c08_aligned!(c08_aligned_u16_q4, u16, 2, 4);
+
+//@ name: c08_aligned_u16_q5
+//@ prop: C08
+//@ tier: thorough
+//@ clause: alignment-padded form for u16 with a 5-byte query (residue 5 mod 8): the payload starts at an absolute frame offset that is a multiple of the element alignment, stays there through into_wire_bytes, and decodes to the same elements
+//@ funcs: MessageBuilder::body_aligned_typed_slice; beve::aligned_typed_slice_size; beve::write_aligned_typed_slice_at; beve::read_aligned_typed_slice; Message::into_wire_bytes; MessageView::from_slice_exact
+//@ symbolic: 2 elements of u16 (every bit pattern)
+//@ bounds: 2 elements; query length 5 (per-instance constant); unwind 90
+//@ oracle: (48 + |query| + body_len - payload) % align_of == 0; to_bits equality
+c08_aligned!(c08_aligned_u16_q5, u16, 2, 5);
+
+//@ name: c08_aligned_u16_q6
+//@ prop: C08
+//@ tier: thorough
+//@ clause: alignment-padded form for u16 with a 6-byte query (residue 6 mod 8): the payload starts at an absolute frame offset that is a multiple of the element alignment, stays there through into_wire_bytes, and decodes to the same elements
+//@ funcs: MessageBuilder::body_aligned_typed_slice; beve::aligned_typed_slice_size; beve::write_aligned_typed_slice_at; beve::read_aligned_typed_slice; Message::into_wire_bytes; MessageView::from_slice_exact
+//@ symbolic: 2 elements of u16 (every bit pattern)
+//@ bounds: 2 elements; query length 6 (per-instance constant); unwind 90
+//@ oracle: (48 + |query| + body_len - payload) % align_of == 0; to_bits equality
+c08_aligned!(c08_aligned_u16_q6, u16, 2, 6);
+
+//@ name: c08_aligned_u16_q7
+//@ prop: C08
+//@ tier: thorough
+//@ clause: alignment-padded form for u16 with a 7-byte query (residue 7 mod 8): the payload starts at an absolute frame offset that is a multiple of the element alignment, stays there through into_wire_bytes, and decodes to the same elements
+//@ funcs: MessageBuilder::body_aligned_typed_slice; beve::aligned_typed_slice_size; beve::write_aligned_typed_slice_at; beve::read_aligned_typed_slice; Message::into_wire_bytes; MessageView::from_slice_exact
+//@ symbolic: 2 elements of u16 (every bit pattern)
+//@ bounds: 2 elements; query length 7 (per-instance constant); unwind 90
+//@ oracle: (48 + |query| + body_len - payload) % align_of == 0; to_bits equality
+c08_aligned!(c08_aligned_u16_q7, u16, 2, 7);
+
+//@ name: c08_aligned_u16_q8
+//@ prop: C08
+//@ tier: thorough
+//@ clause: alignment-padded form for u16 with a 8-byte query (residue 8 mod 8): the payload starts at an absolute frame offset that is a multiple of the element alignment, stays there through into_wire_bytes, and decodes to the same elements
+//@ funcs: MessageBuilder::body_aligned_typed_slice; beve::aligned_typed_slice_size; beve::write_aligned_typed_slice_at; beve::read_aligned_typed_slice; Message::into_wire_bytes; MessageView::from_slice_exact
+//@ symbolic: 2 elements of u16 (every bit pattern)
+//@ bounds: 2 elements; query length 8 (per-instance constant); unwind 90
+//@ oracle: (48 + |query| + body_len - payload) % align_of == 0; to_bits equality
+c08_aligned!(c08_aligned_u16_q8, u16, 2, 8);
+
+//@ name: c08_aligned_f32_q0
+//@ prop: C08
+//@ tier: thorough
+//@ clause: alignment-padded form for f32 with a 0-byte query (residue 0 mod 8): the payload starts at an absolute frame offset that is a multiple of the element alignment, stays there through into_wire_bytes, and decodes to the same elements
+//@ funcs: MessageBuilder::body_aligned_typed_slice; beve::aligned_typed_slice_size; beve::write_aligned_typed_slice_at; beve::read_aligned_typed_slice; Message::into_wire_bytes; MessageView::from_slice_exact
+//@ symbolic: 2 elements of f32 (every bit pattern)
+//@ bounds: 2 elements; query length 0 (per-instance constant); unwind 90
+//@ oracle: (48 + |query| + body_len - payload) % align_of == 0; to_bits equality
+c08_aligned!(c08_aligned_f32_q0, f32, 2, 0);
+
+//@ name: c08_aligned_f32_q1
+//@ prop: C08
+//@ tier: thorough
+//@ clause: alignment-padded form for f32 with a 1-byte query (residue 1 mod 8): the payload starts at an absolute frame offset that is a multiple of the element alignment, stays there through into_wire_bytes, and decodes to the same elements
+//@ funcs: MessageBuilder::body_aligned_typed_slice; beve::aligned_typed_slice_size; beve::write_aligned_typed_slice_at; beve::read_aligned_typed_slice; Message::into_wire_bytes; MessageView::from_slice_exact
+//@ symbolic: 2 elements of f32 (every bit pattern)
+//@ bounds: 2 elements; query length 1 (per-instance constant); unwind 90
+//@ oracle: (48 + |query| + body_len - payload) % align_of == 0; to_bits equality
+c08_aligned!(c08_aligned_f32_q1, f32, 2, 1);
+
+//@ name: c08_aligned_f32_q2
+//@ prop: C08
+//@ tier: thorough
+//@ clause: alignment-padded form for f32 with a 2-byte query (residue 2 mod 8): the payload starts at an absolute frame offset that is a multiple of the element alignment, stays there through into_wire_bytes, and decodes to the same elements
+//@ funcs: MessageBuilder::body_aligned_typed_slice; beve::aligned_typed_slice_size; beve::write_aligned_typed_slice_at; beve::read_aligned_typed_slice; Message::into_wire_bytes; MessageView::from_slice_exact
+//@ symbolic: 2 elements of f32 (every bit pattern)
+//@ bounds: 2 elements; query length 2 (per-instance constant); unwind 90
+//@ oracle: (48 + |query| + body_len - payload) % align_of == 0; to_bits equality
+c08_aligned!(c08_aligned_f32_q2, f32, 2, 2);
+
+//@ name: c08_aligned_f32_q3
+//@ prop: C08
+//@ tier: thorough
+//@ clause: alignment-padded form for f32 with a 3-byte query (residue 3 mod 8): the payload starts at an absolute frame offset that is a multiple of the element alignment, stays there through into_wire_bytes, and decodes to the same elements
+//@ funcs: MessageBuilder::body_aligned_typed_slice; beve::aligned_typed_slice_size; beve::write_aligned_typed_slice_at; beve::read_aligned_typed_slice; Message::into_wire_bytes; MessageView::from_slice_exact
+//@ symbolic: 2 elements of f32 (every bit pattern)
+//@ bounds: 2 elements; query length 3 (per-instance constant); unwind 90
+//@ oracle: (48 + |query| + body_len - payload) % align_of == 0; to_bits equality
+c08_aligned!(c08_aligned_f32_q3, f32, 2, 3);
+
+//@ name: c08_aligned_f32_q4
+//@ prop: C08
+//@ tier: thorough
+//@ clause: alignment-padded form for f32 with a 4-byte query (residue 4 mod 8): the payload starts at an absolute frame offset that is a multiple of the element alignment, stays there through into_wire_bytes, and decodes to the same elements
+//@ funcs: MessageBuilder::body_aligned_typed_slice; beve::aligned_typed_slice_size; beve::write_aligned_typed_slice_at; beve::read_aligned_typed_slice; Message::into_wire_bytes; MessageView::from_slice_exact
+//@ symbolic: 2 elements of f32 (every bit pattern)
+//@ bounds: 2 elements; query length 4 (per-instance constant); unwind 90
+//@ oracle: (48 + |query| + body_len - payload) % align_of == 0; to_bits equality
+c08_aligned!(c08_aligned_f32_q4, f32, 2, 4);
+
+//@ name: c08_aligned_f32_q5
+//@ prop: C08
+//@ tier: thorough
+//@ clause: alignment-padded form for f32 with a 5-byte query (residue 5 mod 8): the payload starts at an absolute frame offset that is a multiple of the element alignment, stays there through into_wire_bytes, and decodes to the same elements
+//@ funcs: MessageBuilder::body_aligned_typed_slice; beve::aligned_typed_slice_size; beve::write_aligned_typed_slice_at; beve::read_aligned_typed_slice; Message::into_wire_bytes; MessageView::from_slice_exact
+//@ symbolic: 2 elements of f32 (every bit pattern)
+//@ bounds: 2 elements; query length 5 (per-instance constant); unwind 90
+//@ oracle: (48 + |query| + body_len - payload) % align_of == 0; to_bits equality
+c08_aligned!(c08_aligned_f32_q5, f32, 2, 5);
+
+//@ name: c08_aligned_f32_q6
+//@ prop: C08
+//@ tier: thorough
+//@ clause: alignment-padded form for f32 with a 6-byte query (residue 6 mod 8): the payload starts at an absolute frame offset that is a multiple of the element alignment, stays there through into_wire_bytes, and decodes to the same elements
+//@ funcs: MessageBuilder::body_aligned_typed_slice; beve::aligned_typed_slice_size; beve::write_aligned_typed_slice_at; beve::read_aligned_typed_slice; Message::into_wire_bytes; MessageView::from_slice_exact
+//@ symbolic: 2 elements of f32 (every bit pattern)
+//@ bounds: 2 elements; query length 6 (per-instance constant); unwind 90
+//@ oracle: (48 + |query| + body_len - payload) % align_of == 0; to_bits equality
+c08_aligned!(c08_aligned_f32_q6, f32, 2, 6);
+
+//@ name: c08_aligned_f32_q7
+//@ prop: C08
+//@ tier: thorough
+//@ clause: alignment-padded form for f32 with a 7-byte query (residue 7 mod 8): the payload starts at an absolute frame offset that is a multiple of the element alignment, stays there through into_wire_bytes, and decodes to the same elements
+//@ funcs: MessageBuilder::body_aligned_typed_slice; beve::aligned_typed_slice_size; beve::write_aligned_typed_slice_at; beve::read_aligned_typed_slice; Message::into_wire_bytes; MessageView::from_slice_exact
+//@ symbolic: 2 elements of f32 (every bit pattern)
+//@ bounds: 2 elements; query length 7 (per-instance constant); unwind 90
+//@ oracle: (48 + |query| + body_len - payload) % align_of == 0; to_bits equality
+c08_aligned!(c08_aligned_f32_q7, f32, 2, 7);
+
+//@ name: c08_aligned_f32_q8
+//@ prop: C08
+//@ tier: thorough
+//@ clause: alignment-padded form for f32 with a 8-byte query (residue 8 mod 8): the payload starts at an absolute frame offset that is a multiple of the element alignment, stays there through into_wire_bytes, and decodes to the same elements
+//@ funcs: MessageBuilder::body_aligned_typed_slice; beve::aligned_typed_slice_size; beve::write_aligned_typed_slice_at; beve::read_aligned_typed_slice; Message::into_wire_bytes; MessageView::from_slice_exact
+//@ symbolic: 2 elements of f32 (every bit pattern)
+//@ bounds: 2 elements; query length 8 (per-instance constant); unwind 90
+//@ oracle: (48 + |query| + body_len - payload) % align_of == 0; to_bits equality
+c08_aligned!(c08_aligned_f32_q8, f32, 2, 8);
+
+//@ name: c08_aligned_u64_q0
+//@ prop: C08
+//@ tier: thorough
+//@ clause: alignment-padded form for u64 with a 0-byte query (residue 0 mod 8): the payload starts at an absolute frame offset that is a multiple of the element alignment, stays there through into_wire_bytes, and decodes to the same elements
+//@ funcs: MessageBuilder::body_aligned_typed_slice; beve::aligned_typed_slice_size; beve::write_aligned_typed_slice_at; beve::read_aligned_typed_slice; Message::into_wire_bytes; MessageView::from_slice_exact
+//@ symbolic: 2 elements of u64 (every bit pattern)
+//@ bounds: 2 elements; query length 0 (per-instance constant); unwind 90
+//@ oracle: (48 + |query| + body_len - payload) % align_of == 0; to_bits equality
+c08_aligned!(c08_aligned_u64_q0, u64, 2, 0);
+
+//@ name: c08_aligned_u64_q1
+//@ prop: C08
+//@ tier: thorough
+//@ clause: alignment-padded form for u64 with a 1-byte query (residue 1 mod 8): the payload starts at an absolute frame offset that is a multiple of the element alignment, stays there through into_wire_bytes, and decodes to the same elements
+//@ funcs: MessageBuilder::body_aligned_typed_slice; beve::aligned_typed_slice_size; beve::write_aligned_typed_slice_at; beve::read_aligned_typed_slice; Message::into_wire_bytes; MessageView::from_slice_exact
+//@ symbolic: 2 elements of u64 (every bit pattern)
+//@ bounds: 2 elements; query length 1 (per-instance constant); unwind 90
+//@ oracle: (48 + |query| + body_len - payload) % align_of == 0; to_bits equality
+c08_aligned!(c08_aligned_u64_q1, u64, 2, 1);
+
+//@ name: c08_aligned_u64_q2
+//@ prop: C08
+//@ tier: thorough
+//@ clause: alignment-padded form for u64 with a 2-byte query (residue 2 mod 8): the payload starts at an absolute frame offset that is a multiple of the element alignment, stays there through into_wire_bytes, and decodes to the same elements
+//@ funcs: MessageBuilder::body_aligned_typed_slice; beve::aligned_typed_slice_size; beve::write_aligned_typed_slice_at; beve::read_aligned_typed_slice; Message::into_wire_bytes; MessageView::from_slice_exact
+//@ symbolic: 2 elements of u64 (every bit pattern)
+//@ bounds: 2 elements; query length 2 (per-instance constant); unwind 90
+//@ oracle: (48 + |query| + body_len - payload) % align_of == 0; to_bits equality
+c08_aligned!(c08_aligned_u64_q2, u64, 2, 2);
+
+//@ name: c08_aligned_u64_q3
+//@ prop: C08
+//@ tier: thorough
+//@ clause: alignment-padded form for u64 with a 3-byte query (residue 3 mod 8): the payload starts at an absolute frame offset that is a multiple of the element alignment, stays there through into_wire_bytes, and decodes to the same elements
+//@ funcs: MessageBuilder::body_aligned_typed_slice; beve::aligned_typed_slice_size; beve::write_aligned_typed_slice_at; beve::read_aligned_typed_slice; Message::into_wire_bytes; MessageView::from_slice_exact
+//@ symbolic: 2 elements of u64 (every bit pattern)
+//@ bounds: 2 elements; query length 3 (per-instance constant); unwind 90
+//@ oracle: (48 + |query| + body_len - payload) % align_of == 0; to_bits equality
+c08_aligned!(c08_aligned_u64_q3, u64, 2, 3);
+
+//@ name: c08_aligned_u64_q4
+//@ prop: C08
+//@ tier: thorough
+//@ clause: alignment-padded form for u64 with a 4-byte query (residue 4 mod 8): the payload starts at an absolute frame offset that is a multiple of the element alignment, stays there through into_wire_bytes, and decodes to the same elements
+//@ funcs: MessageBuilder::body_aligned_typed_slice; beve::aligned_typed_slice_size; beve::write_aligned_typed_slice_at; beve::read_aligned_typed_slice; Message::into_wire_bytes; MessageView::from_slice_exact
+//@ symbolic: 2 elements of u64 (every bit pattern)
+//@ bounds: 2 elements; query length 4 (per-instance constant); unwind 90
+//@ oracle: (48 + |query| + body_len - payload) % align_of == 0; to_bits equality
+c08_aligned!(c08_aligned_u64_q4, u64, 2, 4);
+
+//@ name: c08_aligned_u64_q5
+//@ prop: C08
+//@ tier: thorough
+//@ clause: alignment-padded form for u64 with a 5-byte query (residue 5 mod 8): the payload starts at an absolute frame offset that is a multiple of the element alignment, stays there through into_wire_bytes, and decodes to the same elements
+//@ funcs: MessageBuilder::body_aligned_typed_slice; beve::aligned_typed_slice_size; beve::write_aligned_typed_slice_at; beve::read_aligned_typed_slice; Message::into_wire_bytes; MessageView::from_slice_exact
+//@ symbolic: 2 elements of u64 (every bit pattern)
+//@ bounds: 2 elements; query length 5 (per-instance constant); unwind 90
+//@ oracle: (48 + |query| + body_len - payload) % align_of == 0; to_bits equality
+c08_aligned!(c08_aligned_u64_q5, u64, 2, 5);
+
+//@ name: c08_aligned_u64_q6
+//@ prop: C08
+//@ tier: thorough
+//@ clause: alignment-padded form for u64 with a 6-byte query (residue 6 mod 8): the payload starts at an absolute frame offset that is a multiple of the element alignment, stays there through into_wire_bytes, and decodes to the same elements
+//@ funcs: MessageBuilder::body_aligned_typed_slice; beve::aligned_typed_slice_size; beve::write_aligned_typed_slice_at; beve::read_aligned_typed_slice; Message::into_wire_bytes; MessageView::from_slice_exact
+//@ symbolic: 2 elements of u64 (every bit pattern)
+//@ bounds: 2 elements; query length 6 (per-instance constant); unwind 90
+//@ oracle: (48 + |query| + body_len - payload) % align_of == 0; to_bits equality
+c08_aligned!(c08_aligned_u64_q6, u64, 2, 6);
+
+//@ name: c08_aligned_u64_q7
+//@ prop: C08
+//@ tier: thorough
+//@ clause: alignment-padded form for u64 with a 7-byte query (residue 7 mod 8): the payload starts at an absolute frame offset that is a multiple of the element alignment, stays there through into_wire_bytes, and decodes to the same elements
+//@ funcs: MessageBuilder::body_aligned_typed_slice; beve::aligned_typed_slice_size; beve::write_aligned_typed_slice_at; beve::read_aligned_typed_slice; Message::into_wire_bytes; MessageView::from_slice_exact
+//@ symbolic: 2 elements of u64 (every bit pattern)
+//@ bounds: 2 elements; query length 7 (per-instance constant); unwind 90
+//@ oracle: (48 + |query| + body_len - payload) % align_of == 0; to_bits equality
+c08_aligned!(c08_aligned_u64_q7, u64, 2, 7);
+
+//@ name: c08_aligned_u64_q8
+//@ prop: C08
+//@ tier: thorough
+//@ clause: alignment-padded form for u64 with a 8-byte query (residue 8 mod 8): the payload starts at an absolute frame offset that is a multiple of the element alignment, stays there through into_wire_bytes, and decodes to the same elements
+//@ funcs: MessageBuilder::body_aligned_typed_slice; beve::aligned_typed_slice_size; beve::write_aligned_typed_slice_at; beve::read_aligned_typed_slice; Message::into_wire_bytes; MessageView::from_slice_exact
+//@ symbolic: 2 elements of u64 (every bit pattern)
+//@ bounds: 2 elements; query length 8 (per-instance constant); unwind 90
+//@ oracle: (48 + |query| + body_len - payload) % align_of == 0; to_bits equality
+c08_aligned!(c08_aligned_u64_q8, u64, 2, 8);
+
+//@ name: c08_aligned_i32_q0
+//@ prop: C08
+//@ tier: thorough
+//@ clause: alignment-padded form for i32 with a 0-byte query (residue 0 mod 8): the payload starts at an absolute frame offset that is a multiple of the element alignment, stays there through into_wire_bytes, and decodes to the same elements
+//@ funcs: MessageBuilder::body_aligned_typed_slice; beve::aligned_typed_slice_size; beve::write_aligned_typed_slice_at; beve::read_aligned_typed_slice; Message::into_wire_bytes; MessageView::from_slice_exact
+//@ symbolic: 2 elements of i32 (every bit pattern)
+//@ bounds: 2 elements; query length 0 (per-instance constant); unwind 90
+//@ oracle: (48 + |query| + body_len - payload) % align_of == 0; to_bits equality
+c08_aligned!(c08_aligned_i32_q0, i32, 2, 0);
+
+//@ name: c08_aligned_i32_q1
+//@ prop: C08
+//@ tier: thorough
+//@ clause: alignment-padded form for i32 with a 1-byte query (residue 1 mod 8): the payload starts at an absolute frame offset that is a multiple of the element alignment, stays there through into_wire_bytes, and decodes to the same elements
+//@ funcs: MessageBuilder::body_aligned_typed_slice; beve::aligned_typed_slice_size; beve::write_aligned_typed_slice_at; beve::read_aligned_typed_slice; Message::into_wire_bytes; MessageView::from_slice_exact
+//@ symbolic: 2 elements of i32 (every bit pattern)
+//@ bounds: 2 elements; query length 1 (per-instance constant); unwind 90
+//@ oracle: (48 + |query| + body_len - payload) % align_of == 0; to_bits equality
+c08_aligned!(c08_aligned_i32_q1, i32, 2, 1);
+
+//@ name: c08_aligned_i32_q2
+//@ prop: C08
+//@ tier: thorough
+//@ clause: alignment-padded form for i32 with a 2-byte query (residue 2 mod 8): the payload starts at an absolute frame offset that is a multiple of the element alignment, stays there through into_wire_bytes, and decodes to the same elements
+//@ funcs: MessageBuilder::body_aligned_typed_slice; beve::aligned_typed_slice_size; beve::write_aligned_typed_slice_at; beve::read_aligned_typed_slice; Message::into_wire_bytes; MessageView::from_slice_exact
+//@ symbolic: 2 elements of i32 (every bit pattern)
+//@ bounds: 2 elements; query length 2 (per-instance constant); unwind 90
+//@ oracle: (48 + |query| + body_len - payload) % align_of == 0; to_bits equality
+c08_aligned!(c08_aligned_i32_q2, i32, 2, 2);
+
+//@ name: c08_aligned_i32_q3
+//@ prop: C08
+//@ tier: thorough
+//@ clause: alignment-padded form for i32 with a 3-byte query (residue 3 mod 8): the payload starts at an absolute frame offset that is a multiple of the element alignment, stays there through into_wire_bytes, and decodes to the same elements
+//@ funcs: MessageBuilder::body_aligned_typed_slice; beve::aligned_typed_slice_size; beve::write_aligned_typed_slice_at; beve::read_aligned_typed_slice; Message::into_wire_bytes; MessageView::from_slice_exact
+//@ symbolic: 2 elements of i32 (every bit pattern)
+//@ bounds: 2 elements; query length 3 (per-instance constant); unwind 90
+//@ oracle: (48 + |query| + body_len - payload) % align_of == 0; to_bits equality
+c08_aligned!(c08_aligned_i32_q3, i32, 2, 3);
+
+//@ name: c08_aligned_i32_q4
+//@ prop: C08
+//@ tier: thorough
+//@ clause: alignment-padded form for i32 with a 4-byte query (residue 4 mod 8): the payload starts at an absolute frame offset that is a multiple of the element alignment, stays there through into_wire_bytes, and decodes to the same elements
+//@ funcs: MessageBuilder::body_aligned_typed_slice; beve::aligned_typed_slice_size; beve::write_aligned_typed_slice_at; beve::read_aligned_typed_slice; Message::into_wire_bytes; MessageView::from_slice_exact
+//@ symbolic: 2 elements of i32 (every bit pattern)
+//@ bounds: 2 elements; query length 4 (per-instance constant); unwind 90
+//@ oracle: (48 + |query| + body_len - payload) % align_of == 0; to_bits equality
+c08_aligned!(c08_aligned_i32_q4, i32, 2, 4);
+
+//@ name: c08_aligned_i32_q5
+//@ prop: C08
+//@ tier: thorough
+//@ clause: alignment-padded form for i32 with a 5-byte query (residue 5 mod 8): the payload starts at an absolute frame offset that is a multiple of the element alignment, stays there through into_wire_bytes, and decodes to the same elements
+//@ funcs: MessageBuilder::body_aligned_typed_slice; beve::aligned_typed_slice_size; beve::write_aligned_typed_slice_at; beve::read_aligned_typed_slice; Message::into_wire_bytes; MessageView::from_slice_exact
+//@ symbolic: 2 elements of i32 (every bit pattern)
+//@ bounds: 2 elements; query length 5 (per-instance constant); unwind 90
+//@ oracle: (48 + |query| + body_len - payload) % align_of == 0; to_bits equality
+c08_aligned!(c08_aligned_i32_q5, i32, 2, 5);
+
+//@ name: c08_aligned_i32_q6
+//@ prop: C08
+//@ tier: thorough
+//@ clause: alignment-padded form for i32 with a 6-byte query (residue 6 mod 8): the payload starts at an absolute frame offset that is a multiple of the element alignment, stays there through into_wire_bytes, and decodes to the same elements
+//@ funcs: MessageBuilder::body_aligned_typed_slice; beve::aligned_typed_slice_size; beve::write_aligned_typed_slice_at; beve::read_aligned_typed_slice; Message::into_wire_bytes; MessageView::from_slice_exact
+//@ symbolic: 2 elements of i32 (every bit pattern)
+//@ bounds: 2 elements; query length 6 (per-instance constant); unwind 90
+//@ oracle: (48 + |query| + body_len - payload) % align_of == 0; to_bits equality
+c08_aligned!(c08_aligned_i32_q6, i32, 2, 6);
+
+//@ name: c08_aligned_i32_q7
+//@ prop: C08
+//@ tier: thorough
+//@ clause: alignment-padded form for i32 with a 7-byte query (residue 7 mod 8): the payload starts at an absolute frame offset that is a multiple of the element alignment, stays there through into_wire_bytes, and decodes to the same elements
+//@ funcs: MessageBuilder::body_aligned_typed_slice; beve::aligned_typed_slice_size; beve::write_aligned_typed_slice_at; beve::read_aligned_typed_slice; Message::into_wire_bytes; MessageView::from_slice_exact
+//@ symbolic: 2 elements of i32 (every bit pattern)
+//@ bounds: 2 elements; query length 7 (per-instance constant); unwind 90
+//@ oracle: (48 + |query| + body_len - payload) % align_of == 0; to_bits equality
+c08_aligned!(c08_aligned_i32_q7, i32, 2, 7);
+
+//@ name: c08_aligned_i32_q8
+//@ prop: C08
+//@ tier: thorough
+//@ clause: alignment-padded form for i32 with a 8-byte query (residue 8 mod 8): the payload starts at an absolute frame offset that is a multiple of the element alignment, stays there through into_wire_bytes, and decodes to the same elements
+//@ funcs: MessageBuilder::body_aligned_typed_slice; beve::aligned_typed_slice_size; beve::write_aligned_typed_slice_at; beve::read_aligned_typed_slice; Message::into_wire_bytes; MessageView::from_slice_exact
+//@ symbolic: 2 elements of i32 (every bit pattern)
+//@ bounds: 2 elements; query length 8 (per-instance constant); unwind 90
+//@ oracle: (48 + |query| + body_len - payload) % align_of == 0; to_bits equality
+c08_aligned!(c08_aligned_i32_q8, i32, 2, 8);
+
+//@ name: c08_aligned_u8_q0
+//@ prop: C08
+//@ tier: thorough
+//@ clause: alignment-padded form for u8 with a 0-byte query (residue 0 mod 8): the payload starts at an absolute frame offset that is a multiple of the element alignment, stays there through into_wire_bytes, and decodes to the same elements
+//@ funcs: MessageBuilder::body_aligned_typed_slice; beve::aligned_typed_slice_size; beve::write_aligned_typed_slice_at; beve::read_aligned_typed_slice; Message::into_wire_bytes; MessageView::from_slice_exact
+//@ symbolic: 2 elements of u8 (every bit pattern)
+//@ bounds: 2 elements; query length 0 (per-instance constant); unwind 90
+//@ oracle: (48 + |query| + body_len - payload) % align_of == 0; to_bits equality
+c08_aligned!(c08_aligned_u8_q0, u8, 2, 0);
+
+//@ name: c08_aligned_u8_q1
+//@ prop: C08
+//@ tier: thorough
+//@ clause: alignment-padded form for u8 with a 1-byte query (residue 1 mod 8): the payload starts at an absolute frame offset that is a multiple of the element alignment, stays there through into_wire_bytes, and decodes to the same elements
+//@ funcs: MessageBuilder::body_aligned_typed_slice; beve::aligned_typed_slice_size; beve::write_aligned_typed_slice_at; beve::read_aligned_typed_slice; Message::into_wire_bytes; MessageView::from_slice_exact
+//@ symbolic: 2 elements of u8 (every bit pattern)
+//@ bounds: 2 elements; query length 1 (per-instance constant); unwind 90
+//@ oracle: (48 + |query| + body_len - payload) % align_of == 0; to_bits equality
+c08_aligned!(c08_aligned_u8_q1, u8, 2, 1);
+
+//@ name: c08_aligned_u8_q2
+//@ prop: C08
+//@ tier: thorough
+//@ clause: alignment-padded form for u8 with a 2-byte query (residue 2 mod 8): the payload starts at an absolute frame offset that is a multiple of the element alignment, stays there through into_wire_bytes, and decodes to the same elements
+//@ funcs: MessageBuilder::body_aligned_typed_slice; beve::aligned_typed_slice_size; beve::write_aligned_typed_slice_at; beve::read_aligned_typed_slice; Message::into_wire_bytes; MessageView::from_slice_exact
+//@ symbolic: 2 elements of u8 (every bit pattern)
+//@ bounds: 2 elements; query length 2 (per-instance constant); unwind 90
+//@ oracle: (48 + |query| + body_len - payload) % align_of == 0; to_bits equality
+c08_aligned!(c08_aligned_u8_q2, u8, 2, 2);
+
+//@ name: c08_aligned_u8_q3
+//@ prop: C08
+//@ tier: thorough
+//@ clause: alignment-padded form for u8 with a 3-byte query (residue 3 mod 8): the payload starts at an absolute frame offset that is a multiple of the element alignment, stays there through into_wire_bytes, and decodes to the same elements
+//@ funcs: MessageBuilder::body_aligned_typed_slice; beve::aligned_typed_slice_size; beve::write_aligned_typed_slice_at; beve::read_aligned_typed_slice; Message::into_wire_bytes; MessageView::from_slice_exact
+//@ symbolic: 2 elements of u8 (every bit pattern)
+//@ bounds: 2 elements; query length 3 (per-instance constant); unwind 90
+//@ oracle: (48 + |query| + body_len - payload) % align_of == 0; to_bits equality
+c08_aligned!(c08_aligned_u8_q3, u8, 2, 3);
+
+//@ name: c08_aligned_u8_q4
+//@ prop: C08
+//@ tier: thorough
+//@ clause: alignment-padded form for u8 with a 4-byte query (residue 4 mod 8): the payload starts at an absolute frame offset that is a multiple of the element alignment, stays there through into_wire_bytes, and decodes to the same elements
+//@ funcs: MessageBuilder::body_aligned_typed_slice; beve::aligned_typed_slice_size; beve::write_aligned_typed_slice_at; beve::read_aligned_typed_slice; Message::into_wire_bytes; MessageView::from_slice_exact
+//@ symbolic: 2 elements of u8 (every bit pattern)
+//@ bounds: 2 elements; query length 4 (per-instance constant); unwind 90
+//@ oracle: (48 + |query| + body_len - payload) % align_of == 0; to_bits equality
+c08_aligned!(c08_aligned_u8_q4, u8, 2, 4);
+
+//@ name: c08_aligned_u8_q5
+//@ prop: C08
+//@ tier: thorough
+//@ clause: alignment-padded form for u8 with a 5-byte query (residue 5 mod 8): the payload starts at an absolute frame offset that is a multiple of the element alignment, stays there through into_wire_bytes, and decodes to the same elements
+//@ funcs: MessageBuilder::body_aligned_typed_slice; beve::aligned_typed_slice_size; beve::write_aligned_typed_slice_at; beve::read_aligned_typed_slice; Message::into_wire_bytes; MessageView::from_slice_exact
+//@ symbolic: 2 elements of u8 (every bit pattern)
+//@ bounds: 2 elements; query length 5 (per-instance constant); unwind 90
+//@ oracle: (48 + |query| + body_len - payload) % align_of == 0; to_bits equality
+c08_aligned!(c08_aligned_u8_q5, u8, 2, 5);
+
+//@ name: c08_aligned_u8_q6
+//@ prop: C08
+//@ tier: thorough
+//@ clause: alignment-padded form for u8 with a 6-byte query (residue 6 mod 8): the payload starts at an absolute frame offset that is a multiple of the element alignment, stays there through into_wire_bytes, and decodes to the same elements
+//@ funcs: MessageBuilder::body_aligned_typed_slice; beve::aligned_typed_slice_size; beve::write_aligned_typed_slice_at; beve::read_aligned_typed_slice; Message::into_wire_bytes; MessageView::from_slice_exact
+//@ symbolic: 2 elements of u8 (every bit pattern)
+//@ bounds: 2 elements; query length 6 (per-instance constant); unwind 90
+//@ oracle: (48 + |query| + body_len - payload) % align_of == 0; to_bits equality
+c08_aligned!(c08_aligned_u8_q6, u8, 2, 6);
+
+//@ name: c08_aligned_u8_q7
+//@ prop: C08
+//@ tier: thorough
+//@ clause: alignment-padded form for u8 with a 7-byte query (residue 7 mod 8): the payload starts at an absolute frame offset that is a multiple of the element alignment, stays there through into_wire_bytes, and decodes to the same elements
+//@ funcs: MessageBuilder::body_aligned_typed_slice; beve::aligned_typed_slice_size; beve::write_aligned_typed_slice_at; beve::read_aligned_typed_slice; Message::into_wire_bytes; MessageView::from_slice_exact
+//@ symbolic: 2 elements of u8 (every bit pattern)
+//@ bounds: 2 elements; query length 7 (per-instance constant); unwind 90
+//@ oracle: (48 + |query| + body_len - payload) % align_of == 0; to_bits equality
+c08_aligned!(c08_aligned_u8_q7, u8, 2, 7);
+
+//@ name: c08_aligned_u8_q8
+//@ prop: C08
+//@ tier: thorough
+//@ clause: alignment-padded form for u8 with a 8-byte query (residue 8 mod 8): the payload starts at an absolute frame offset that is a multiple of the element alignment, stays there through into_wire_bytes, and decodes to the same elements
+//@ funcs: MessageBuilder::body_aligned_typed_slice; beve::aligned_typed_slice_size; beve::write_aligned_typed_slice_at; beve::read_aligned_typed_slice; Message::into_wire_bytes; MessageView::from_slice_exact
+//@ symbolic: 2 elements of u8 (every bit pattern)
+//@ bounds: 2 elements; query length 8 (per-instance constant); unwind 90
+//@ oracle: (48 + |query| + body_len - payload) % align_of == 0; to_bits equality
+c08_aligned!(c08_aligned_u8_q8, u8, 2, 8);
